@@ -1,8 +1,14 @@
-(* Proofs/Kde.v — lemmas about Model/Kde.v (exact KDE model over Q). *)
-From MM Require Import Base.Num Base.GASort Model.Sample Model.Quantile Model.Kde.
+(* Proofs/Kde.v — lemmas about Model/Kde.v (exact KDE model over Q) against Spec/Kde.v.
+   Everything in this file is over Q / Z / lists and closed under the global context.
+   The analytic statements (derivative pair, integrals) live over the reals in Proofs/KdeR.v
+   (about RealSpec/KdeR.v) and are tied to the rational spec in Proofs/KdeQR.v. *)
+From MM Require Import Base.Num Base.GASort Model.Sample Model.Quantile Model.Kde Spec.Kde.
 From Coq Require Import Qround Lqa Lra Psatz.
 Local Open Scope Q_scope.
 
+(* ====================================================================== *)
+(* 0. boolean tests                                                         *)
+(* ====================================================================== *)
 Lemma Qltb_true (a b : Q) : Qltb a b = true <-> a < b.
 Proof.
   unfold Qltb. rewrite negb_true_iff. split; intro H.
@@ -13,8 +19,36 @@ Lemma Qltb_false (a b : Q) : Qltb a b = false <-> b <= a.
 Proof.
   unfold Qltb. rewrite negb_false_iff. apply Qle_bool_iff.
 Qed.
+Lemma Qle_bool_false (a b : Q) : Qle_bool a b = false <-> b < a.
+Proof.
+  split; intro H.
+  - apply Qnot_le_lt. intro L. apply Qle_bool_iff in L. congruence.
+  - destruct (Qle_bool a b) eqn:E; auto. apply Qle_bool_iff in E. exfalso. apply (Qlt_not_le _ _ H E).
+Qed.
+Lemma Qeq_bool_false (a b : Q) : Qeq_bool a b = false <-> ~ a == b.
+Proof.
+  split; intro H.
+  - intro E. apply Qeq_bool_iff in E. congruence.
+  - destruct (Qeq_bool a b) eqn:E; auto. apply Qeq_bool_iff in E. contradiction.
+Qed.
+Lemma Qltb_comp (a b c d : Q) : a == c -> b == d -> Qltb a b = Qltb c d.
+Proof. intros H1 H2. unfold Qltb. now rewrite H1, H2. Qed.
 
-(* ---------- Epanechnikov kernel ---------- *)
+Ltac qb :=
+  repeat match goal with
+  | H : Qltb _ _ = true |- _ => apply Qltb_true in H
+  | H : Qltb _ _ = false |- _ => apply Qltb_false in H
+  | H : Qle_bool _ _ = true |- _ => apply Qle_bool_iff in H
+  | H : Qle_bool _ _ = false |- _ => apply Qle_bool_false in H
+  | H : Qeq_bool _ _ = true |- _ => apply Qeq_bool_iff in H
+  | H : Qeq_bool _ _ = false |- _ => apply Qeq_bool_false in H
+  | H : (_ && _)%bool = true |- _ => apply andb_true_iff in H; destruct H
+  | H : (_ || _)%bool = false |- _ => apply orb_false_iff in H; destruct H
+  end.
+
+(* ====================================================================== *)
+(* 1. Epanechnikov kernel                                                   *)
+(* ====================================================================== *)
 Lemma epan_pdf_nonneg (h x : Q) : 0 < h -> 0 <= epan_pdf h x.
 Proof.
   intro Hh. unfold epan_pdf.
@@ -28,3 +62,1516 @@ Proof.
     setoid_replace (x * x * (1 / (h * h))) with (x * x / (h * h)) by (field; lra).
     apply Qle_shift_div_r; auto. lra.
 Qed.
+
+(* the density vanishes outside the OPEN interval (-h, h) — literally 0 *)
+Lemma epan_pdf_outside (h x : Q) : x <= - h \/ h <= x -> epan_pdf h x = 0.
+Proof.
+  intros [H|H]; unfold epan_pdf.
+  - apply Qltb_false in H. now rewrite H.
+  - apply Qltb_false in H. rewrite H. now rewrite andb_false_r.
+Qed.
+
+(* inside the support it is the parabola (3/(4h)) (1 - x^2/h^2), and strictly positive *)
+Lemma epan_pdf_inside (h x : Q) : 0 < h -> - h < x -> x < h ->
+  epan_pdf h x == (3 # 4) / h * (1 - x * x / (h * h)) /\ 0 < epan_pdf h x.
+Proof.
+  intros Hh H1 H2. unfold epan_pdf.
+  apply Qltb_true in H1 as B1. apply Qltb_true in H2 as B2. rewrite B1, B2. cbn [andb].
+  assert (Hhh : 0 < h * h) by nra.
+  split; [field; lra|].
+  apply Qmult_lt_0_compat.
+  - apply Qlt_shift_div_l; auto. lra.
+  - assert (x * x * (1 / (h * h)) < 1); [| lra].
+    setoid_replace (x * x * (1 / (h * h))) with (x * x / (h * h)) by (field; lra).
+    apply Qlt_shift_div_r; auto. nra.
+Qed.
+
+Lemma epan_pdf_zero_iff (h x : Q) : 0 < h -> (epan_pdf h x == 0 <-> x <= - h \/ h <= x).
+Proof.
+  intro Hh. split.
+  - intro E. destruct (Qlt_le_dec (- h) x) as [A|A]; [|now left].
+    destruct (Qlt_le_dec x h) as [B|B]; [|now right].
+    destruct (epan_pdf_inside h x Hh A B) as [_ P]. rewrite E in P. lra.
+  - intro H. now rewrite (epan_pdf_outside h x H).
+Qed.
+
+Lemma epan_pdf_comp (h x y : Q) : x == y -> epan_pdf h x == epan_pdf h y.
+Proof.
+  intro E. unfold epan_pdf.
+  rewrite (Qltb_comp (- h) x (- h) y), (Qltb_comp x h y h) by (auto; reflexivity).
+  destruct (Qltb (- h) y && Qltb y h); [now rewrite E | reflexivity].
+Qed.
+
+(* the kernel is even *)
+Lemma epan_pdf_even (h x : Q) : epan_pdf h (- x) == epan_pdf h x.
+Proof.
+  unfold epan_pdf.
+  assert (A : Qltb (- h) (- x) = Qltb x h).
+  { destruct (Qltb x h) eqn:E; qb; [apply Qltb_true | apply Qltb_false]; lra. }
+  assert (B : Qltb (- x) h = Qltb (- h) x).
+  { destruct (Qltb (- h) x) eqn:E; qb; [apply Qltb_true | apply Qltb_false]; lra. }
+  rewrite A, B, andb_comm.
+  destruct (Qltb (- h) x && Qltb x h); [ring | reflexivity].
+Qed.
+
+(* distribution function: literally 0 left of the support *)
+Lemma epan_cdf_left (h x : Q) : 0 <= h -> x <= - h -> epan_cdf h x = 0.
+Proof.
+  intros Hh H. unfold epan_cdf.
+  assert (A : Qltb h x = false) by (apply Qltb_false; lra).
+  assert (B : Qltb (- h) x = false) by (apply Qltb_false; lra).
+  now rewrite A, B.
+Qed.
+
+Lemma epan_cdf_mid (h x : Q) : - h < x -> x <= h ->
+  epan_cdf h x == (1 # 4) * (2 + 3 * (x / h) - (x / h) * (x / h) * (x / h)).
+Proof.
+  intros H1 H2. unfold epan_cdf.
+  assert (A : Qltb h x = false) by (apply Qltb_false; lra).
+  assert (B : Qltb (- h) x = true) by (apply Qltb_true; lra).
+  rewrite A, B. cbv zeta. assert (h == 0 \/ ~ h == 0) as [Z|NZ].
+  { destruct (Qeq_dec h 0); auto. }
+  - exfalso. lra.
+  - field. exact NZ.
+Qed.
+
+(* and 1 from the right end of the support on (at x = h by the polynomial) *)
+Lemma epan_cdf_right (h x : Q) : 0 < h -> h <= x -> epan_cdf h x == 1.
+Proof.
+  intros Hh H. destruct (Qlt_le_dec h x) as [A|A].
+  - unfold epan_cdf. apply Qltb_true in A. now rewrite A.
+  - assert (E : x == h) by lra.
+    rewrite epan_cdf_mid by lra. rewrite E. field. lra.
+Qed.
+
+Lemma epan_cdf_comp (h x y : Q) : x == y -> epan_cdf h x == epan_cdf h y.
+Proof.
+  intro E. unfold epan_cdf.
+  rewrite (Qltb_comp h x h y), (Qltb_comp (- h) x (- h) y) by (auto; reflexivity).
+  destruct (Qltb h y); [reflexivity|]. destruct (Qltb (- h) y); [|reflexivity].
+  cbv zeta. now rewrite E.
+Qed.
+
+(* the polynomial piece is non-decreasing on [-1, 1]:
+   P(v) - P(u) = (v - u) (3 - (u^2 + u v + v^2)) / 4 *)
+Lemma epan_poly_mono (u v : Q) : -1 <= u -> u <= v -> v <= 1 ->
+  (1 # 4) * (2 + 3 * u - u * u * u) <= (1 # 4) * (2 + 3 * v - v * v * v).
+Proof.
+  intros A B C.
+  assert (E : (1 # 4) * (2 + 3 * v - v * v * v) - (1 # 4) * (2 + 3 * u - u * u * u)
+              == (1 # 4) * ((v - u) * (3 - (u * u + u * v + v * v)))) by ring.
+  assert (0 <= (v - u) * (3 - (u * u + u * v + v * v))); [| lra].
+  apply Qmult_le_0_compat; [lra|]. nra.
+Qed.
+
+Theorem epan_cdf_mono (h a b : Q) : 0 < h -> a <= b -> epan_cdf h a <= epan_cdf h b.
+Proof.
+  intros Hh Hab.
+  assert (Pos : forall x, - h < x -> x <= h ->
+            -1 < x / h /\ x / h <= 1).
+  { intros x X1 X2. split.
+    - apply Qlt_shift_div_l; lra.
+    - apply Qle_shift_div_r; lra. }
+  assert (Range : forall x, - h < x -> x <= h -> 0 <= epan_cdf h x /\ epan_cdf h x <= 1).
+  { intros x X1 X2. destruct (Pos x X1 X2) as [U1 U2]. rewrite epan_cdf_mid by assumption.
+    split.
+    - pose proof (epan_poly_mono (-1) (x / h)). lra.
+    - pose proof (epan_poly_mono (x / h) 1). lra. }
+  destruct (Qlt_le_dec (- h) a) as [A1|A1].
+  - destruct (Qlt_le_dec h a) as [A2|A2].
+    + rewrite (epan_cdf_right h a), (epan_cdf_right h b) by lra. lra.
+    + destruct (Qlt_le_dec h b) as [B2|B2].
+      * rewrite (epan_cdf_right h b) by lra. apply Range; assumption.
+      * rewrite !epan_cdf_mid by lra.
+        destruct (Pos a) as [U1 U2]; try lra. destruct (Pos b) as [V1 V2]; try lra.
+        apply epan_poly_mono; try lra.
+        apply Qle_shift_div_l; [lra|].
+        setoid_replace (a / h * h) with a by (field; lra). exact Hab.
+  - rewrite (epan_cdf_left h a) by lra.
+    destruct (Qlt_le_dec (- h) b) as [B1|B1].
+    + destruct (Qlt_le_dec h b) as [B2|B2].
+      * rewrite (epan_cdf_right h b) by lra. lra.
+      * apply Range; assumption.
+    + rewrite (epan_cdf_left h b) by lra. lra.
+Qed.
+
+Theorem epan_cdf_range (h x : Q) : 0 < h -> 0 <= epan_cdf h x /\ epan_cdf h x <= 1.
+Proof.
+  intro Hh. split.
+  - destruct (Qlt_le_dec x (- h)) as [A|A].
+    + rewrite epan_cdf_left by lra. lra.
+    + rewrite <- (epan_cdf_left h (- h)) at 1 by lra. apply epan_cdf_mono; assumption.
+  - destruct (Qlt_le_dec x h) as [A|A].
+    + rewrite <- (epan_cdf_right h h) by lra. apply epan_cdf_mono; lra.
+    + rewrite epan_cdf_right by lra. lra.
+Qed.
+
+(* total mass of the kernel: K(h) - K(-h) = 1 *)
+Theorem epan_mass_one (h : Q) : 0 < h -> epan_cdf h h - epan_cdf h (- h) == 1.
+Proof.
+  intro Hh. rewrite (epan_cdf_left h (- h)) by lra. rewrite epan_cdf_right by lra. ring.
+Qed.
+
+(* symmetry K(-x) = 1 - K(x) *)
+Lemma epan_cdf_sym (h x : Q) : 0 < h -> epan_cdf h (- x) == 1 - epan_cdf h x.
+Proof.
+  intro Hh.
+  destruct (Qlt_le_dec x (- h)) as [A|A].
+  - rewrite (epan_cdf_left h x), (epan_cdf_right h (- x)) by lra. ring.
+  - destruct (Qlt_le_dec h x) as [B|B].
+    + rewrite (epan_cdf_left h (- x)), (epan_cdf_right h x) by lra. ring.
+    + destruct (Qeq_dec x (- h)) as [E|NE].
+      * rewrite (epan_cdf_comp h x (- h) E), (epan_cdf_comp h (- x) h) by lra.
+        rewrite (epan_cdf_left h (- h)), epan_cdf_right by lra. ring.
+      * destruct (Qeq_dec x h) as [E2|NE2].
+        -- rewrite (epan_cdf_comp h x h E2), (epan_cdf_comp h (- x) (- h)) by lra.
+           rewrite (epan_cdf_left h (- h)), epan_cdf_right by lra. ring.
+        -- assert (- h < x) by (destruct (Qlt_le_dec (- h) x); auto; exfalso; apply NE; lra).
+           assert (x < h) by (destruct (Qlt_le_dec x h); auto; exfalso; apply NE2; lra).
+           rewrite !epan_cdf_mid by lra. field. lra.
+Qed.
+
+(* ====================================================================== *)
+(* 2. the closure y = mix g: the weighted average of the kernel             *)
+(* ====================================================================== *)
+Lemma fold_Qred_sum {A} (t : A -> Q) (l : list A) (a : Q) :
+  fold_left (fun acc p => Qred (acc + t p)) l a == a + Qsum (map t l).
+Proof.
+  revert a. induction l as [|p l IH]; intro a; cbn [fold_left map Qsum]; [ring|].
+  rewrite IH, Qred_correct. ring.
+Qed.
+
+Lemma Qsum_ext {A} (s t : A -> Q) (l : list A) :
+  (forall p, In p l -> s p == t p) -> Qsum (map s l) == Qsum (map t l).
+Proof.
+  induction l as [|p l IH]; intro H; cbn [map Qsum]; [reflexivity|].
+  rewrite (H p (or_introl eq_refl)), IH; [reflexivity|]. intros q Hq. apply H. now right.
+Qed.
+
+Lemma Qsum_nonneg {A} (t : A -> Q) (l : list A) :
+  (forall p, In p l -> 0 <= t p) -> 0 <= Qsum (map t l).
+Proof.
+  induction l as [|p l IH]; intro H; cbn [map Qsum]; [lra|].
+  pose proof (H p (or_introl eq_refl)). assert (0 <= Qsum (map t l)); [|lra].
+  apply IH. intros q Hq. apply H. now right.
+Qed.
+
+Lemma Qsum_le {A} (s t : A -> Q) (l : list A) :
+  (forall p, In p l -> s p <= t p) -> Qsum (map s l) <= Qsum (map t l).
+Proof.
+  induction l as [|p l IH]; intro H; cbn [map Qsum]; [lra|].
+  pose proof (H p (or_introl eq_refl)). assert (Qsum (map s l) <= Qsum (map t l)); [|lra].
+  apply IH. intros q Hq. apply H. now right.
+Qed.
+
+(* a sum of non-negative terms is zero only if every term is *)
+Lemma Qsum_zero_inv {A} (t : A -> Q) (l : list A) :
+  (forall p, In p l -> 0 <= t p) -> Qsum (map t l) == 0 -> forall p, In p l -> t p == 0.
+Proof.
+  induction l as [|p l IH]; intros H E q Hq; [destruct Hq|].
+  cbn [map Qsum] in E.
+  pose proof (H p (or_introl eq_refl)) as P0.
+  assert (R0 : 0 <= Qsum (map t l)) by (apply Qsum_nonneg; intros r Hr; apply H; now right).
+  destruct Hq as [<-|Hq]; [lra|].
+  apply IH; auto; [intros r Hr; apply H; now right | lra].
+Qed.
+
+(* well-formed weights: as many as values *)
+Definition ws_wf (xs : list Q) (ws : option (list Q)) : Prop :=
+  match ws with None => True | Some w => length w = length xs end.
+(* ... and all positive *)
+Definition ws_pos (ws : option (list Q)) : Prop :=
+  match ws with None => True | Some w => Forall (fun wi => 0 < wi) w end.
+
+Lemma map_snd_combine (xs ws : list Q) : length ws = length xs -> map snd (combine xs ws) = ws.
+Proof.
+  revert ws. induction xs as [|x xs IH]; intros [|w ws] H; cbn in *; try discriminate; auto.
+  f_equal. apply IH. lia.
+Qed.
+
+Lemma Qofnat_S (n : nat) : Qofnat (S n) == Qofnat n + 1.
+Proof. unfold Qofnat. rewrite Nat2Z.inj_succ, <- Z.add_1_r, inject_Z_plus. reflexivity. Qed.
+Lemma Qofnat_nonneg (n : nat) : 0 <= Qofnat n.
+Proof. unfold Qofnat. change 0 with (inject_Z 0). rewrite <- Zle_Qle. lia. Qed.
+
+Lemma mix_sum_spec (g : Q -> Q) xs ws x : ws_wf xs ws ->
+  mix_sum g xs ws x == Qsum (map (fun p => snd p * g (x - fst p)) (kpairs xs ws)).
+Proof.
+  intro W. unfold mix_sum, kpairs. destruct ws as [w|].
+  - rewrite (fold_Qred_sum (fun p => g (x - fst p) * snd p)). rewrite Qplus_0_l.
+    apply Qsum_ext. intros p _. ring.
+  - rewrite (fold_Qred_sum (fun xi => g (x - xi))). rewrite Qplus_0_l, map_map. cbn [fst snd].
+    apply Qsum_ext. intros p _. ring.
+Qed.
+
+Lemma mix_weight_spec xs ws : ws_wf xs ws -> mix_weight xs ws == wtotal (kpairs xs ws).
+Proof.
+  intro W. unfold mix_weight, kpairs, wtotal. destruct ws as [w|].
+  - cbn in W. rewrite map_snd_combine by exact W.
+    rewrite (fold_Qred_sum (fun wi => wi)), map_id. ring.
+  - clear W. rewrite map_map. cbn [snd]. induction xs as [|x xs IH]; [reflexivity|].
+    cbn [length map Qsum]. rewrite Qofnat_S, IH. ring.
+Qed.
+
+(* THE CLOSURE y OF KDE.PDF / KDE.CDF IS THE WEIGHTED AVERAGE OF THE KERNEL *)
+Theorem mix_is_wavg (g : Q -> Q) xs ws x : ws_wf xs ws ->
+  mix g xs ws x == wavg g (kpairs xs ws) x.
+Proof.
+  intro W. unfold mix, wavg. rewrite Qred_correct.
+  rewrite (mix_sum_spec g xs ws x W), (mix_weight_spec xs ws W). reflexivity.
+Qed.
+
+Lemma kpairs_ok xs ws : xs <> [] -> ws_wf xs ws -> ws_pos ws -> pairs_ok (kpairs xs ws).
+Proof.
+  intros Hne W P. unfold kpairs. destruct ws as [w|]; split.
+  - destruct xs as [|x xs]; [congruence|]. destruct w as [|w0 w]; [discriminate|]. discriminate.
+  - cbn in W, P. clear Hne. revert w W P. induction xs as [|x xs IH]; intros [|w0 w] W P; cbn; auto.
+    inversion P; subst. constructor; [assumption|]. apply IH; [cbn in W; lia | assumption].
+  - destruct xs; [congruence | discriminate].
+  - apply Forall_forall. intros p Hp. apply in_map_iff in Hp. destruct Hp as [x0 [<- _]]. cbn. lra.
+Qed.
+
+Lemma kpairs_fst xs ws : ws_wf xs ws -> map fst (kpairs xs ws) = xs.
+Proof.
+  unfold kpairs. destruct ws as [w|]; cbn.
+  - revert w. induction xs as [|x xs IH]; intros [|w0 w] W; cbn in *; try discriminate; auto.
+    f_equal. apply IH. lia.
+  - intros _. rewrite map_map. cbn. apply map_id.
+Qed.
+
+Lemma wtotal_pos ps : pairs_ok ps -> 0 < wtotal ps.
+Proof.
+  intros [Hne Hp]. unfold wtotal. destruct ps as [|p ps]; [congruence|].
+  inversion Hp as [|? ? P0 Pr]; subst. cbn [map Qsum].
+  assert (0 <= Qsum (map snd ps)); [|lra].
+  apply Qsum_nonneg. intros q Hq. rewrite Forall_forall in Pr. specialize (Pr q Hq). lra.
+Qed.
+
+Section Wavg.
+  Variable ps : list (Q * Q).
+  Hypothesis ps_ok : pairs_ok ps.
+
+  Let Wpos : 0 < wtotal ps := wtotal_pos ps ps_ok.
+  Let wnn : forall p, In p ps -> 0 < snd p.
+  Proof. pose proof ps_ok as [_ F]. rewrite Forall_forall in F. exact F. Qed.
+
+  Lemma wavg_nonneg (g : Q -> Q) x : (forall t, 0 <= g t) -> 0 <= wavg g ps x.
+  Proof.
+    intro G. unfold wavg. apply Qle_shift_div_l; [exact Wpos|]. rewrite Qmult_0_l.
+    apply Qsum_nonneg. intros p Hp. pose proof (wnn p Hp). specialize (G (x - fst p)). nra.
+  Qed.
+
+  Lemma wavg_le (g g' : Q -> Q) x x' :
+    (forall p, In p ps -> g (x - fst p) <= g' (x' - fst p)) -> wavg g ps x <= wavg g' ps x'.
+  Proof.
+    intro G. unfold wavg. apply Qle_shift_div_l; [exact Wpos|].
+    setoid_replace (Qsum (map (fun p => snd p * g (x - fst p)) ps) / wtotal ps * wtotal ps)
+      with (Qsum (map (fun p => snd p * g (x - fst p)) ps)) by (field; lra).
+    apply Qsum_le. intros p Hp. pose proof (wnn p Hp). specialize (G p Hp). nra.
+  Qed.
+
+  (* a monotone kernel distribution function gives a monotone estimate *)
+  Lemma wavg_mono (g : Q -> Q) a b :
+    (forall s t, s <= t -> g s <= g t) -> a <= b -> wavg g ps a <= wavg g ps b.
+  Proof. intros G Hab. apply wavg_le. intros p _. apply G. lra. Qed.
+
+  Lemma wavg_const (g : Q -> Q) x c :
+    (forall p, In p ps -> g (x - fst p) == c) -> wavg g ps x == c.
+  Proof.
+    intro G. unfold wavg.
+    assert (E : Qsum (map (fun p => snd p * g (x - fst p)) ps) == c * wtotal ps).
+    { unfold wtotal. clear Wpos wnn ps_ok. induction ps as [|p l IH]; cbn [map Qsum]; [ring|].
+      rewrite (G p (or_introl eq_refl)), IH; [ring|]. intros q Hq. apply G. now right. }
+    rewrite E. field. lra.
+  Qed.
+
+  Lemma wavg_zero_iff (g : Q -> Q) x : (forall t, 0 <= g t) ->
+    (wavg g ps x == 0 <-> forall p, In p ps -> g (x - fst p) == 0).
+  Proof.
+    intro G. split.
+    - intros E p Hp. unfold wavg in E.
+      assert (S0 : Qsum (map (fun p => snd p * g (x - fst p)) ps) == 0).
+      { setoid_replace (Qsum (map (fun p => snd p * g (x - fst p)) ps))
+          with (Qsum (map (fun p => snd p * g (x - fst p)) ps) / wtotal ps * wtotal ps) by (field; lra).
+        rewrite E. ring. }
+      pose proof (Qsum_zero_inv (fun p => snd p * g (x - fst p)) ps) as Z.
+      assert (T : snd p * g (x - fst p) == 0).
+      { apply Z; auto. intros q Hq. pose proof (wnn q Hq). specialize (G (x - fst q)). nra. }
+      pose proof (wnn p Hp). specialize (G (x - fst p)).
+      assert (~ snd p == 0) by lra.
+      apply Qmult_integral in T. destruct T; [contradiction | assumption].
+    - intro Z. apply wavg_const. exact Z.
+  Qed.
+
+  Lemma wavg_comp (g : Q -> Q) x y :
+    (forall s t, s == t -> g s == g t) -> x == y -> wavg g ps x == wavg g ps y.
+  Proof.
+    intros G E. unfold wavg. apply Qdiv_comp; [|reflexivity].
+    apply Qsum_ext. intros p _. rewrite (G (x - fst p) (y - fst p)); [reflexivity|]. now rewrite E.
+  Qed.
+
+  (* every value within [lo, hi]: a kernel that is 0 left of -r makes the estimate 0 left of
+     lo - r; a kernel distribution function that is 1 from r on makes it 1 from hi + r on *)
+  Lemma wavg_zero_left (g : Q -> Q) (r lo hi x : Q) :
+    pairs_within lo hi ps -> (forall t, t <= - r -> g t == 0) -> x <= lo - r -> wavg g ps x == 0.
+  Proof.
+    intros Hin G Hx. apply wavg_const. intros p Hp. apply G.
+    unfold pairs_within in Hin. rewrite Forall_forall in Hin. specialize (Hin p Hp). lra.
+  Qed.
+  Lemma wavg_zero_right (g : Q -> Q) (r lo hi x : Q) :
+    pairs_within lo hi ps -> (forall t, r <= t -> g t == 0) -> hi + r <= x -> wavg g ps x == 0.
+  Proof.
+    intros Hin G Hx. apply wavg_const. intros p Hp. apply G.
+    unfold pairs_within in Hin. rewrite Forall_forall in Hin. specialize (Hin p Hp). lra.
+  Qed.
+  Lemma wavg_one_right (g : Q -> Q) (r lo hi x : Q) :
+    pairs_within lo hi ps -> (forall t, r <= t -> g t == 1) -> hi + r <= x -> wavg g ps x == 1.
+  Proof.
+    intros Hin G Hx. apply wavg_const. intros p Hp. apply G.
+    unfold pairs_within in Hin. rewrite Forall_forall in Hin. specialize (Hin p Hp). lra.
+  Qed.
+End Wavg.
+
+(* ====================================================================== *)
+(* 3. series (alg.go) in exact arithmetic                                   *)
+(* ====================================================================== *)
+(* "a zero term is followed only by zero terms" *)
+Definition absorbing (t : nat -> Q) : Prop := forall n, t n == 0 -> t (S n) == 0.
+
+Lemma nat_sum_absorb (t : nat -> Q) : absorbing t ->
+  forall n K, (n <= K)%nat -> t n == 0 -> t K == 0 /\ nat_sum t K == nat_sum t n.
+Proof.
+  intros A n K L Z. induction L as [|K L [IH1 IH2]]; [split; [exact Z|reflexivity]|].
+  split; [apply A, IH1|]. cbn [nat_sum]. rewrite IH2, IH1. ring.
+Qed.
+
+(* series stops at the first zero term; if zero terms are absorbing and one occurs before the
+   fuel runs out, the value is the sum of ALL terms up to any later zero term *)
+Lemma series_q_stop (t : nat -> Q) : absorbing t ->
+  forall fuel n acc K, (n <= K)%nat -> t K == 0 -> (K < n + fuel)%nat ->
+  exists s, series_q t n fuel acc = Some s /\ s + nat_sum t n == acc + nat_sum t K.
+Proof.
+  intros A fuel. induction fuel as [|fuel IH]; intros n acc K L Z F; [lia|].
+  cbn [series_q]. destruct (Qeq_bool (t n) 0) eqn:E.
+  - apply Qeq_bool_iff in E. exists acc. split; [reflexivity|].
+    destruct (nat_sum_absorb t A n K L E) as [_ S]. rewrite S. reflexivity.
+  - apply Qeq_bool_false in E.
+    assert (n <> K) by (intro; subst; contradiction).
+    destruct (IH (S n) (Qred (acc + t n)) K) as [s [S1 S2]]; [lia|exact Z|lia|].
+    exists s. split; [exact S1|]. cbn [nat_sum] in S2. rewrite Qred_correct in S2. lra.
+Qed.
+
+Corollary series_q_value (t : nat -> Q) (fuel K : nat) : absorbing t -> t K == 0 -> (K < fuel)%nat ->
+  exists s, series_q t 0 fuel 0 = Some s /\ forall K', (K <= K')%nat -> s == nat_sum t K'.
+Proof.
+  intros A Z F. destruct (series_q_stop t A fuel 0%nat 0 K) as [s [S1 S2]]; [lia|exact Z|lia|].
+  exists s. split; [exact S1|]. intros K' L.
+  destruct (nat_sum_absorb t A K K' L Z) as [_ E]. rewrite E. cbn [nat_sum] in S2. lra.
+Qed.
+
+(* ====================================================================== *)
+(* 4. the two one-sided series of kde.go are the symmetric image sum        *)
+(* ====================================================================== *)
+Lemma sym_sum_ext (s t : Z -> Q) N : (forall n, s n == t n) -> sym_sum s N == sym_sum t N.
+Proof. intro E. induction N as [|N IH]; cbn [sym_sum]; [apply E|]. rewrite IH, !E. reflexivity. Qed.
+
+Lemma fold_pdf_ext (f g : Q -> Q) m M N x : (forall z, f z == g z) -> fold_pdf f m M N x == fold_pdf g m M N x.
+Proof. intro E. unfold fold_pdf. apply sym_sum_ext. intro n. rewrite !E. reflexivity. Qed.
+Lemma fold_cdf_ext (f g : Q -> Q) m M N x : (forall z, f z == g z) -> fold_cdf f m M N x == fold_cdf g m M N x.
+Proof. intro E. unfold fold_cdf. apply sym_sum_ext. intro n. rewrite !E. reflexivity. Qed.
+
+Lemma inject_Z_neg_S (N : nat) : inject_Z (- Z.of_nat (S N)) == - (Qofnat N + 1).
+Proof. rewrite inject_Z_opp. fold (Qofnat (S N)). rewrite Qofnat_S. reflexivity. Qed.
+
+Section FoldSeries.
+  Variable y : Q -> Q.
+  Hypothesis y_comp : forall s t, s == t -> y s == y t.
+  Variables m M x : Q.
+
+  Lemma pdf_upper_term (n : nat) :
+    pdf_upper y m M x n ==
+    y (x + inject_Z (Z.of_nat n) * period m M) + y (2 * m - x + inject_Z (Z.of_nat n) * period m M).
+  Proof.
+    unfold pdf_upper, img_d, img_w, period, Qofnat. apply Qplus_comp; apply y_comp; ring.
+  Qed.
+  Lemma pdf_lower_term (n : nat) :
+    pdf_lower y m M x n ==
+    y (x + inject_Z (- Z.of_nat (S n)) * period m M) + y (2 * m - x + inject_Z (- Z.of_nat (S n)) * period m M).
+  Proof.
+    unfold pdf_lower, img_d, img_w, period. rewrite Qplus_comm.
+    apply Qplus_comp; apply y_comp; rewrite inject_Z_neg_S; ring.
+  Qed.
+  Lemma cdf_upper_term (n : nat) :
+    cdf_upper y m M x n ==
+    y (x + inject_Z (Z.of_nat n) * period m M) - y (2 * m - x + inject_Z (Z.of_nat n) * period m M).
+  Proof.
+    unfold cdf_upper, img_d, img_w, period, Qofnat, Qminus.
+    apply Qplus_comp; [|apply Qopp_comp]; apply y_comp; ring.
+  Qed.
+  Lemma cdf_lower_term (n : nat) :
+    cdf_lower y m M x n ==
+    y (x + inject_Z (- Z.of_nat (S n)) * period m M) - y (2 * m - x + inject_Z (- Z.of_nat (S n)) * period m M).
+  Proof.
+    unfold cdf_lower, img_d, img_w, period, Qminus.
+    apply Qplus_comp; [|apply Qopp_comp]; apply y_comp; rewrite inject_Z_neg_S; ring.
+  Qed.
+
+  (* partial sums of the two series of KDE.PDF = the symmetric truncation of the image sum *)
+  Lemma fold_pdf_series (N : nat) :
+    nat_sum (pdf_upper y m M x) (S N) + nat_sum (pdf_lower y m M x) N == fold_pdf y m M N x.
+  Proof.
+    unfold fold_pdf. induction N as [|N IH].
+    - cbn [nat_sum sym_sum]. rewrite pdf_upper_term. cbn [Z.of_nat]. ring.
+    - cbn [nat_sum sym_sum] in *. rewrite <- IH, (pdf_upper_term (S N)), (pdf_lower_term N). ring.
+  Qed.
+  Lemma fold_cdf_series (N : nat) :
+    nat_sum (cdf_upper y m M x) (S N) + nat_sum (cdf_lower y m M x) N == fold_cdf y m M N x.
+  Proof.
+    unfold fold_cdf. induction N as [|N IH].
+    - cbn [nat_sum sym_sum]. rewrite cdf_upper_term. cbn [Z.of_nat]. ring.
+    - cbn [nat_sum sym_sum] in *. rewrite <- IH, (cdf_upper_term (S N)), (cdf_lower_term N). ring.
+  Qed.
+End FoldSeries.
+
+(* the image sum of the distribution function: 0 at the lower boundary ... *)
+Theorem fold_cdf_at_min (F : Q -> Q) (m M : Q) (N : nat) :
+  (forall s t, s == t -> F s == F t) -> fold_cdf F m M N m == 0.
+Proof.
+  intro C. unfold fold_cdf. induction N as [|N IH]; cbn [sym_sum].
+  - rewrite (C (2 * m - m + inject_Z 0 * period m M) (m + inject_Z 0 * period m M)) by ring. ring.
+  - rewrite IH.
+    rewrite (C (2 * m - m + inject_Z (Z.of_nat (S N)) * period m M) (m + inject_Z (Z.of_nat (S N)) * period m M)) by ring.
+    rewrite (C (2 * m - m + inject_Z (- Z.of_nat (S N)) * period m M) (m + inject_Z (- Z.of_nat (S N)) * period m M)) by ring.
+    ring.
+Qed.
+
+(* ... and at the upper boundary it telescopes:
+   Σ_{|n|<=N} F(M + n d) - F(M + (n-1) d) = F(M + N d) - F(M - (N+1) d) *)
+Theorem fold_cdf_at_max_telescopes (F : Q -> Q) (m M : Q) (N : nat) :
+  (forall s t, s == t -> F s == F t) ->
+  fold_cdf F m M N M == F (M + Qofnat N * period m M) - F (M - (Qofnat N + 1) * period m M).
+Proof.
+  intro C. unfold fold_cdf. induction N as [|N IH]; cbn [sym_sum].
+  - apply Qplus_comp; [|apply Qopp_comp]; apply C; unfold period, Qofnat; cbn [Z.of_nat]; ring.
+  - rewrite IH.
+    rewrite (C (M + inject_Z (Z.of_nat (S N)) * period m M) (M + Qofnat (S N) * period m M)) by reflexivity.
+    rewrite (C (2 * m - M + inject_Z (Z.of_nat (S N)) * period m M) (M + Qofnat N * period m M))
+      by (fold (Qofnat (S N)); rewrite Qofnat_S; unfold period; ring).
+    rewrite (C (M + inject_Z (- Z.of_nat (S N)) * period m M) (M - (Qofnat N + 1) * period m M))
+      by (rewrite inject_Z_neg_S; ring).
+    rewrite (C (2 * m - M + inject_Z (- Z.of_nat (S N)) * period m M) (M - (Qofnat (S N) + 1) * period m M))
+      by (rewrite inject_Z_neg_S, Qofnat_S; unfold period; ring).
+    ring.
+Qed.
+
+(* hence the folded distribution function is exactly 1 at BoundaryMax once the images have
+   left the support of F (F = 0 left of m - r, F = 1 right of M + r, r <= N d) *)
+Theorem fold_cdf_at_max (F : Q -> Q) (m M r : Q) (N : nat) :
+  (forall s t, s == t -> F s == F t) ->
+  (forall z, z <= m - r -> F z == 0) -> (forall z, M + r <= z -> F z == 1) ->
+  m <= M -> r <= Qofnat N * period m M -> fold_cdf F m M N M == 1.
+Proof.
+  intros C F0 F1 L R. rewrite fold_cdf_at_max_telescopes by exact C.
+  unfold period in *. rewrite F1 by lra. rewrite F0; [ring|].
+  assert (0 <= Qofnat N) by apply Qofnat_nonneg. nra.
+Qed.
+
+(* ====================================================================== *)
+(* 5. compact kernel, data inside [m, M]: `series` loses nothing            *)
+(* ====================================================================== *)
+Lemma sum2_zero (a b : Q) : 0 <= a -> 0 <= b -> (a + b == 0 <-> a == 0 /\ b == 0).
+Proof. intros A B. split; [intro E; split; lra | intros [E1 E2]; lra]. Qed.
+
+Section Images.
+  Variable ps : list (Q * Q).
+  Variables h m M x : Q.
+  Hypothesis h_pos : 0 < h.
+  Hypothesis ps_in : pairs_within m M ps.
+  Hypothesis x_in : m <= x /\ x <= M.
+
+  Let inps : forall p, In p ps -> m <= fst p /\ fst p <= M.
+  Proof. unfold pairs_within in ps_in. rewrite Forall_forall in ps_in. exact ps_in. Qed.
+
+  (* ---------- density ---------- *)
+  Variable y : Q -> Q.
+  Hypothesis y_nonneg : forall z, 0 <= y z.
+  Hypothesis y_comp : forall s t, s == t -> y s == y t.
+  (* y vanishes exactly where no kernel (radius h around a data point) reaches *)
+  Hypothesis y_zero : forall z, y z == 0 <-> forall p, In p ps -> z - fst p <= - h \/ h <= z - fst p.
+
+  Lemma pdf_upper_absorbing : absorbing (pdf_upper y m M x).
+  Proof.
+    intros n. unfold pdf_upper. rewrite !sum2_zero by apply y_nonneg. rewrite !y_zero.
+    intros [Ha Hb].
+    assert (Ec : Qofnat (S n) * img_d m M == Qofnat n * img_d m M + img_d m M) by (rewrite Qofnat_S; ring).
+    assert (Hc : 0 <= Qofnat n * img_d m M).
+    { apply Qmult_le_0_compat; [apply Qofnat_nonneg | unfold img_d; lra]. }
+    set (c := Qofnat n * img_d m M) in *. set (c' := Qofnat (S n) * img_d m M) in *.
+    clearbody c c'. unfold img_d, img_w in *.
+    split; intros p Hp; specialize (Ha p Hp); specialize (Hb p Hp); pose proof (inps p Hp);
+      right; lra.
+  Qed.
+
+  Lemma pdf_lower_absorbing : absorbing (pdf_lower y m M x).
+  Proof.
+    intros n. unfold pdf_lower. rewrite !sum2_zero by apply y_nonneg. rewrite !y_zero.
+    intros [Ha Hb].
+    assert (Ec : (Qofnat (S n) + 1) * img_d m M == (Qofnat n + 1) * img_d m M + img_d m M) by (rewrite Qofnat_S; ring).
+    assert (Hc : 0 <= (Qofnat n + 1) * img_d m M).
+    { apply Qmult_le_0_compat; [pose proof (Qofnat_nonneg n); lra | unfold img_d; lra]. }
+    set (c := (Qofnat n + 1) * img_d m M) in *. set (c' := (Qofnat (S n) + 1) * img_d m M) in *.
+    clearbody c c'. unfold img_d, img_w in *.
+    split; intros p Hp; specialize (Ha p Hp); specialize (Hb p Hp); pose proof (inps p Hp);
+      left; lra.
+  Qed.
+
+  (* an index from which on every image is out of reach of every kernel *)
+  Variable K0 : nat.
+  Hypothesis K0_big : h + img_d m M <= Qofnat K0 * img_d m M.
+
+  Lemma pdf_upper_K0 : pdf_upper y m M x K0 == 0.
+  Proof.
+    unfold pdf_upper. apply sum2_zero; try apply y_nonneg. rewrite !y_zero.
+    set (c := Qofnat K0 * img_d m M) in *. clearbody c. unfold img_d, img_w in *.
+    split; intros p Hp; pose proof (inps p Hp); right; lra.
+  Qed.
+  Lemma pdf_lower_K0 : pdf_lower y m M x K0 == 0.
+  Proof.
+    unfold pdf_lower. apply sum2_zero; try apply y_nonneg. rewrite !y_zero.
+    assert (Ec : (Qofnat K0 + 1) * img_d m M == Qofnat K0 * img_d m M + img_d m M) by ring.
+    set (c := Qofnat K0 * img_d m M) in *. set (c' := (Qofnat K0 + 1) * img_d m M) in *.
+    clearbody c c'. unfold img_d, img_w in *.
+    split; intros p Hp; pose proof (inps p Hp); left; lra.
+  Qed.
+
+  (* KDE.PDF on a doubly bounded support IS the unbounded density folded back at both
+     boundaries: the two truncated series add up to the symmetric image sum of EVERY order
+     N >= K0 (beyond K0 all images are zero: the sum is the full two-sided infinite sum) *)
+  Theorem two_series_pdf_is_fold (fuel : nat) : (K0 < fuel)%nat ->
+    exists v, two_series fuel (pdf_upper y m M x) (pdf_lower y m M x) = Some v /\
+              forall N, (K0 <= N)%nat -> v == fold_pdf y m M N x.
+  Proof.
+    intro F.
+    destruct (series_q_value _ fuel K0 pdf_upper_absorbing pdf_upper_K0 F) as [a [A1 A2]].
+    destruct (series_q_value _ fuel K0 pdf_lower_absorbing pdf_lower_K0 F) as [b [B1 B2]].
+    exists (Qred (a + b)). unfold two_series. rewrite A1, B1. split; [reflexivity|].
+    intros N L. rewrite Qred_correct, (A2 (S N)), (B2 N) by lia.
+    apply fold_pdf_series. exact y_comp.
+  Qed.
+
+  (* ---------- distribution function ---------- *)
+  Variable Y : Q -> Q.
+  Hypothesis Y_comp : forall s t, s == t -> Y s == Y t.
+  (* no mass between b and a exactly when no kernel meets the interval *)
+  Hypothesis Y_flat : forall a b, b <= a ->
+    (Y a - Y b == 0 <-> forall p, In p ps -> a == b \/ a - fst p <= - h \/ h <= b - fst p).
+
+  Lemma cdf_upper_absorbing : absorbing (cdf_upper Y m M x).
+  Proof.
+    intros n. unfold cdf_upper.
+    assert (Ec : Qofnat (S n) * img_d m M == Qofnat n * img_d m M + img_d m M) by (rewrite Qofnat_S; ring).
+    assert (Hc : 0 <= Qofnat n * img_d m M).
+    { apply Qmult_le_0_compat; [apply Qofnat_nonneg | unfold img_d; lra]. }
+    set (c := Qofnat n * img_d m M) in *. set (c' := Qofnat (S n) * img_d m M) in *.
+    clearbody c c'. rewrite !Y_flat by (unfold img_w; lra).
+    intros Ha p Hp. specialize (Ha p Hp). pose proof (inps p Hp). unfold img_d, img_w in *.
+    destruct Ha as [Ha|[Ha|Ha]]; [left; lra | right; right; lra | right; right; lra].
+  Qed.
+
+  Lemma cdf_lower_absorbing : absorbing (cdf_lower Y m M x).
+  Proof.
+    intros n. unfold cdf_lower.
+    assert (Ec : (Qofnat (S n) + 1) * img_d m M == (Qofnat n + 1) * img_d m M + img_d m M) by (rewrite Qofnat_S; ring).
+    assert (Hc : 0 <= (Qofnat n + 1) * img_d m M).
+    { apply Qmult_le_0_compat; [pose proof (Qofnat_nonneg n); lra | unfold img_d; lra]. }
+    set (c := (Qofnat n + 1) * img_d m M) in *. set (c' := (Qofnat (S n) + 1) * img_d m M) in *.
+    clearbody c c'. rewrite !Y_flat by (unfold img_w; lra).
+    intros Ha p Hp. specialize (Ha p Hp). pose proof (inps p Hp). unfold img_d, img_w in *.
+    destruct Ha as [Ha|[Ha|Ha]]; [left; lra | right; left; lra | exfalso; lra].
+  Qed.
+
+  Lemma cdf_upper_K0 : cdf_upper Y m M x K0 == 0.
+  Proof.
+    unfold cdf_upper. set (c := Qofnat K0 * img_d m M) in *. clearbody c.
+    apply Y_flat; [unfold img_w; lra|]. intros p Hp. pose proof (inps p Hp).
+    unfold img_d, img_w in *. right; right; lra.
+  Qed.
+  Lemma cdf_lower_K0 : cdf_lower Y m M x K0 == 0.
+  Proof.
+    unfold cdf_lower.
+    assert (Ec : (Qofnat K0 + 1) * img_d m M == Qofnat K0 * img_d m M + img_d m M) by ring.
+    set (c := Qofnat K0 * img_d m M) in *. set (c' := (Qofnat K0 + 1) * img_d m M) in *.
+    clearbody c c'.
+    apply Y_flat; [unfold img_w; lra|]. intros p Hp. pose proof (inps p Hp).
+    unfold img_d, img_w in *. right; left; lra.
+  Qed.
+
+  Theorem two_series_cdf_is_fold (fuel : nat) : (K0 < fuel)%nat ->
+    exists v, two_series fuel (cdf_upper Y m M x) (cdf_lower Y m M x) = Some v /\
+              forall N, (K0 <= N)%nat -> v == fold_cdf Y m M N x.
+  Proof.
+    intro F.
+    destruct (series_q_value _ fuel K0 cdf_upper_absorbing cdf_upper_K0 F) as [a [A1 A2]].
+    destruct (series_q_value _ fuel K0 cdf_lower_absorbing cdf_lower_K0 F) as [b [B1 B2]].
+    exists (Qred (a + b)). unfold two_series. rewrite A1, B1. split; [reflexivity|].
+    intros N L. rewrite Qred_correct, (A2 (S N)), (B2 N) by lia.
+    apply fold_cdf_series. exact Y_comp.
+  Qed.
+End Images.
+
+(* THE FUEL ARGUMENT: the number of images the model allots is enough *)
+Lemma img_fuel_enough (r m M : Q) : 0 <= r -> m < M ->
+  let K0 := (img_fuel r m M - 3)%nat in
+  (K0 < img_fuel r m M)%nat /\ r + img_d m M <= Qofnat K0 * img_d m M.
+Proof.
+  intros Hr Hm. unfold img_fuel.
+  assert (B : Qle_bool M m = false) by (apply Qle_bool_false; exact Hm). rewrite B.
+  assert (Hd : 0 < img_d m M) by (unfold img_d; lra).
+  set (c := Qceiling (r / img_d m M)).
+  assert (Hc : r / img_d m M <= inject_Z c) by apply Qle_ceiling.
+  assert (H0 : 0 <= r / img_d m M) by (apply Qle_shift_div_l; lra).
+  assert (Hz : (0 <= c)%Z) by (rewrite Zle_Qle; change (inject_Z 0) with 0; lra).
+  cbv zeta. split; [lia|].
+  replace (Z.to_nat c + 4 - 3)%nat with (S (Z.to_nat c)) by lia.
+  rewrite Qofnat_S. unfold Qofnat. rewrite Z2Nat.id by exact Hz.
+  assert (r <= inject_Z c * img_d m M); [|lra].
+  apply Qle_shift_div_r in Hc; [exact Hc | exact Hd] || idtac.
+  setoid_replace r with (r / img_d m M * img_d m M) by (field; lra).
+  apply Qmult_le_compat_r; lra.
+Qed.
+
+(* ====================================================================== *)
+(* 6. the Epanechnikov estimate: weighted average of kernels                *)
+(* ====================================================================== *)
+Lemma Qsum_minus {A} (s t : A -> Q) (l : list A) :
+  Qsum (map s l) - Qsum (map t l) == Qsum (map (fun p => s p - t p) l).
+Proof. induction l as [|p l IH]; cbn [map Qsum]; [ring|]. rewrite <- IH. ring. Qed.
+
+Lemma wavg_diff_zero_iff ps (g : Q -> Q) a b : pairs_ok ps ->
+  (forall s t, s <= t -> g s <= g t) -> b <= a ->
+  (wavg g ps a - wavg g ps b == 0 <-> forall p, In p ps -> g (a - fst p) == g (b - fst p)).
+Proof.
+  intros ok G L. pose proof (wtotal_pos ps ok) as W.
+  assert (pos : forall p, In p ps -> 0 < snd p).
+  { destruct ok as [_ F]. rewrite Forall_forall in F. exact F. }
+  assert (E : wavg g ps a - wavg g ps b ==
+              Qsum (map (fun p => snd p * (g (a - fst p) - g (b - fst p))) ps) / wtotal ps).
+  { unfold wavg.
+    setoid_replace (Qsum (map (fun p => snd p * (g (a - fst p) - g (b - fst p))) ps))
+      with (Qsum (map (fun p => snd p * g (a - fst p)) ps) - Qsum (map (fun p => snd p * g (b - fst p)) ps)).
+    - field. lra.
+    - rewrite Qsum_minus. apply Qsum_ext. intros p _. ring. }
+  assert (NN : forall p, In p ps -> 0 <= snd p * (g (a - fst p) - g (b - fst p))).
+  { intros p Hp. pose proof (pos p Hp). pose proof (G (b - fst p) (a - fst p)). nra. }
+  rewrite E. split.
+  - intros Z p Hp.
+    assert (S0 : Qsum (map (fun p => snd p * (g (a - fst p) - g (b - fst p))) ps) == 0).
+    { setoid_replace (Qsum (map (fun p => snd p * (g (a - fst p) - g (b - fst p))) ps))
+        with (Qsum (map (fun p => snd p * (g (a - fst p) - g (b - fst p))) ps) / wtotal ps * wtotal ps)
+        by (field; lra).
+      rewrite Z. ring. }
+    pose proof (Qsum_zero_inv _ ps NN S0 p Hp) as T. pose proof (pos p Hp).
+    apply Qmult_integral in T. destruct T; lra.
+  - intro Z.
+    assert (S0 : Qsum (map (fun p => snd p * (g (a - fst p) - g (b - fst p))) ps) == 0).
+    { rewrite (Qsum_ext _ (fun _ => 0)).
+      - clear. induction ps as [|p l IH]; cbn [map Qsum]; [reflexivity | rewrite IH; ring].
+      - intros p Hp. rewrite (Z p Hp). ring. }
+    rewrite S0. field. lra.
+Qed.
+
+(* strict monotonicity of the Epanechnikov distribution function on its support *)
+Lemma epan_poly_strict (u v : Q) : -1 <= u -> u < v -> v <= 1 ->
+  (1 # 4) * (2 + 3 * u - u * u * u) < (1 # 4) * (2 + 3 * v - v * v * v).
+Proof.
+  intros A B C.
+  assert (E : (1 # 4) * (2 + 3 * v - v * v * v) - (1 # 4) * (2 + 3 * u - u * u * u)
+              == (1 # 4) * ((v - u) * ((3 # 2) * ((1 - u * u) + (1 - v * v)) + (1 # 2) * ((u - v) * (u - v))))) by ring.
+  assert (0 < (v - u) * ((3 # 2) * ((1 - u * u) + (1 - v * v)) + (1 # 2) * ((u - v) * (u - v)))); [| lra].
+  apply Qmult_lt_0_compat; [lra|].
+  assert (0 <= 1 - u * u) by nra. assert (0 <= 1 - v * v) by nra.
+  assert (0 < (u - v) * (u - v)) by nra. lra.
+Qed.
+
+Lemma epan_cdf_strict (h a b : Q) : 0 < h -> - h <= a -> a < b -> b <= h -> epan_cdf h a < epan_cdf h b.
+Proof.
+  intros Hh A B C.
+  assert (P : forall x, - h <= x -> x <= h ->
+     epan_cdf h x == (1 # 4) * (2 + 3 * (x / h) - (x / h) * (x / h) * (x / h)) /\ -1 <= x / h /\ x / h <= 1).
+  { intros x X1 X2. split; [|split].
+    - destruct (Qlt_le_dec (- h) x) as [L|L]; [apply epan_cdf_mid; assumption|].
+      assert (E : x == - h) by lra. rewrite (epan_cdf_comp h x (- h) E), epan_cdf_left by lra.
+      rewrite E. field. lra.
+    - apply Qle_shift_div_l; lra.
+    - apply Qle_shift_div_r; lra. }
+  destruct (P a) as (Ea & A1 & A2); try lra. destruct (P b) as (Eb & B1 & B2); try lra.
+  rewrite Ea, Eb. apply epan_poly_strict; try lra.
+  apply Qlt_shift_div_l; [lra|]. setoid_replace (a / h * h) with a by (field; lra). exact B.
+Qed.
+
+Lemma epan_cdf_flat (h s t : Q) : 0 < h -> s <= t ->
+  (epan_cdf h t == epan_cdf h s <-> t == s \/ t <= - h \/ h <= s).
+Proof.
+  intros Hh L. split.
+  - intro E.
+    destruct (Qlt_le_dec (- h) t) as [T|T]; [|right; left; exact T].
+    destruct (Qlt_le_dec s h) as [S|S]; [|right; right; exact S].
+    destruct (Qeq_dec t s) as [Q|NQ]; [left; exact Q|]. exfalso.
+    assert (Lt : s < t) by (destruct (Qlt_le_dec s t); auto; exfalso; apply NQ; lra).
+    set (s' := if Qlt_le_dec s (- h) then - h else s).
+    set (t' := if Qlt_le_dec h t then h else t).
+    assert (S1 : s <= s' /\ - h <= s' /\ s' < h) by (unfold s'; destruct (Qlt_le_dec s (- h)); lra).
+    assert (T1 : t' <= t /\ t' <= h /\ - h < t') by (unfold t'; destruct (Qlt_le_dec h t); lra).
+    assert (ST : s' < t') by (unfold s', t'; destruct (Qlt_le_dec s (- h)), (Qlt_le_dec h t); lra).
+    pose proof (epan_cdf_mono h s s' Hh (proj1 S1)).
+    pose proof (epan_cdf_mono h t' t Hh (proj1 T1)).
+    pose proof (epan_cdf_strict h s' t' Hh). lra.
+  - intros [E|[E|E]].
+    + apply epan_cdf_comp; exact E.
+    + rewrite (epan_cdf_left h t), (epan_cdf_left h s) by lra. reflexivity.
+    + rewrite (epan_cdf_right h t), (epan_cdf_right h s) by lra. reflexivity.
+Qed.
+
+Definition kde_ok (k : kde) : Prop :=
+  k_xs k <> [] /\ ws_wf (k_xs k) (k_ws k) /\ ws_pos (k_ws k) /\ 0 < k_h k.
+(* the (value, weight) pairs of the sample *)
+Definition kde_ps (k : kde) : list (Q * Q) := kpairs (k_xs k) (k_ws k).
+(* the unbounded Epanechnikov estimate of Spec/Kde.v: density and distribution function *)
+Definition kde_f (k : kde) : Q -> Q := wavg (epan_pdf (k_h k)) (kde_ps k).
+Definition kde_F (k : kde) : Q -> Q := wavg (epan_cdf (k_h k)) (kde_ps k).
+
+Lemma kde_ps_ok k : kde_ok k -> pairs_ok (kde_ps k).
+Proof. intros (A & B & C & _). apply kpairs_ok; assumption. Qed.
+
+Lemma kde_pdf_epan k x : kde_ok k -> k_kernel k = KEpan ->
+  kde_pdf k x = option_map XFin (reflect_pdf (mix (epan_pdf (k_h k)) (k_xs k) (k_ws k)) (k_fuel k) (k_b k) x).
+Proof.
+  intros (A & _ & _ & H) E. unfold kde_pdf. rewrite E.
+  destruct (k_xs k) as [|x0 xs] eqn:X; [congruence|].
+  assert (B : Qle_bool (k_h k) 0 = false) by (apply Qle_bool_false; exact H). rewrite B. reflexivity.
+Qed.
+Lemma kde_cdf_epan k x : kde_ok k -> k_kernel k = KEpan ->
+  kde_cdf k x = option_map XFin (reflect_cdf (mix (epan_cdf (k_h k)) (k_xs k) (k_ws k)) (k_fuel k) (k_b k) x).
+Proof.
+  intros (A & _ & _ & H) E. unfold kde_cdf. rewrite E.
+  destruct (k_xs k) as [|x0 xs] eqn:X; [congruence|].
+  assert (B : Qle_bool (k_h k) 0 = false) by (apply Qle_bool_false; exact H). rewrite B. reflexivity.
+Qed.
+
+Section EpanEstimate.
+  Variable k : kde.
+  Hypothesis ok : kde_ok k.
+
+  Let h := k_h k.
+  Let h_pos : 0 < h. Proof. apply ok. Qed.
+  Let wf : ws_wf (k_xs k) (k_ws k). Proof. apply ok. Qed.
+  Let pok : pairs_ok (kde_ps k) := kde_ps_ok k ok.
+
+  Lemma y_is_f z : mix (epan_pdf (k_h k)) (k_xs k) (k_ws k) z == kde_f k z.
+  Proof. apply mix_is_wavg, wf. Qed.
+  Lemma Y_is_F z : mix (epan_cdf (k_h k)) (k_xs k) (k_ws k) z == kde_F k z.
+  Proof. apply mix_is_wavg, wf. Qed.
+
+  Lemma kde_f_nonneg z : 0 <= kde_f k z.
+  Proof. apply wavg_nonneg; [exact pok | intro t; apply epan_pdf_nonneg, h_pos]. Qed.
+  Lemma kde_f_comp s t : s == t -> kde_f k s == kde_f k t.
+  Proof. apply wavg_comp. intros a b. apply epan_pdf_comp. Qed.
+  Lemma kde_F_comp s t : s == t -> kde_F k s == kde_F k t.
+  Proof. apply wavg_comp. intros a b. apply epan_cdf_comp. Qed.
+  Lemma kde_F_mono a b : a <= b -> kde_F k a <= kde_F k b.
+  Proof. apply wavg_mono; [exact pok | intros s t; apply epan_cdf_mono, h_pos]. Qed.
+  Lemma kde_F_range z : 0 <= kde_F k z /\ kde_F k z <= 1.
+  Proof.
+    split.
+    - apply wavg_nonneg; [exact pok | intro t; apply epan_cdf_range, h_pos].
+    - rewrite <- (wavg_const (kde_ps k) pok (fun _ => 1) z 1) by (intros; reflexivity).
+      apply wavg_le; [exact pok|]. intros p _. apply epan_cdf_range, h_pos.
+  Qed.
+  (* the density vanishes exactly where no kernel reaches *)
+  Lemma kde_f_zero z :
+    kde_f k z == 0 <-> forall p, In p (kde_ps k) -> z - fst p <= - h \/ h <= z - fst p.
+  Proof.
+    unfold kde_f. rewrite (wavg_zero_iff _ pok) by (intro t; apply epan_pdf_nonneg, h_pos).
+    split; intros H p Hp; apply (epan_pdf_zero_iff h _ h_pos), H, Hp.
+  Qed.
+  Lemma kde_F_flat a b : b <= a ->
+    (kde_F k a - kde_F k b == 0 <->
+     forall p, In p (kde_ps k) -> a == b \/ a - fst p <= - h \/ h <= b - fst p).
+  Proof.
+    intro L. unfold kde_F.
+    rewrite (wavg_diff_zero_iff _ _ a b pok) by (auto; intros s t; apply epan_cdf_mono, h_pos).
+    split; intros H p Hp; specialize (H p Hp).
+    - apply (epan_cdf_flat h (b - fst p) (a - fst p) h_pos) in H; [|lra].
+      destruct H as [H|[H|H]]; [left; lra | right; left; exact H | right; right; exact H].
+    - apply (epan_cdf_flat h (b - fst p) (a - fst p) h_pos); [lra|].
+      destruct H as [H|[H|H]]; [left; lra | right; left; exact H | right; right; exact H].
+  Qed.
+  (* compact support: exactly 0 left of (min - h), exactly 1 right of (max + h) *)
+  Lemma kde_F_left lo hi z : pairs_within lo hi (kde_ps k) -> z <= lo - h -> kde_F k z == 0.
+  Proof.
+    intros Hin Hz. apply (wavg_zero_left _ pok _ h lo hi); auto.
+    intros t Ht. rewrite epan_cdf_left by (fold h; lra). reflexivity.
+  Qed.
+  Lemma kde_F_right lo hi z : pairs_within lo hi (kde_ps k) -> hi + h <= z -> kde_F k z == 1.
+  Proof.
+    intros Hin Hz. apply (wavg_one_right _ pok _ h lo hi); auto.
+    intros t Ht. apply epan_cdf_right; [exact h_pos | exact Ht].
+  Qed.
+  Lemma kde_f_outside lo hi z : pairs_within lo hi (kde_ps k) -> z <= lo - h \/ hi + h <= z -> kde_f k z == 0.
+  Proof.
+    intros Hin [Hz|Hz].
+    - apply (wavg_zero_left _ pok _ h lo hi); auto.
+      intros t Ht. rewrite epan_pdf_outside by (left; exact Ht). reflexivity.
+    - apply (wavg_zero_right _ pok _ h lo hi); auto.
+      intros t Ht. rewrite epan_pdf_outside by (right; exact Ht). reflexivity.
+  Qed.
+End EpanEstimate.
+
+(* ====================================================================== *)
+(* 7. KDE.PDF / KDE.CDF with the Epanechnikov kernel, per boundary setting  *)
+(* ====================================================================== *)
+Section EpanKDE.
+  Variable k : kde.
+  Hypothesis ok : kde_ok k.
+  Hypothesis kern : k_kernel k = KEpan.
+
+  (* no boundary: the weighted average of the kernel centred at each sample value *)
+  Theorem kde_unbounded_is_average x : k_b k = BNone ->
+    exists p c, kde_pdf k x = Some (XFin p) /\ kde_cdf k x = Some (XFin c) /\
+                p == kde_f k x /\ c == kde_F k x.
+  Proof.
+    intro B. rewrite kde_pdf_epan, kde_cdf_epan by assumption. rewrite B.
+    cbn [reflect_pdf reflect_cdf option_map].
+    eexists; eexists; repeat split; [apply y_is_f | apply Y_is_F]; exact ok.
+  Qed.
+
+  (* support [m, +inf): nothing below m; inside, the estimate folded back at m *)
+  Theorem kde_lower_reflects m x : k_b k = BLower m ->
+    (x < m -> kde_pdf k x = Some (XFin 0) /\ kde_cdf k x = Some (XFin 0)) /\
+    (m <= x -> exists p c, kde_pdf k x = Some (XFin p) /\ kde_cdf k x = Some (XFin c) /\
+               p == kde_f k x + kde_f k (2 * m - x) /\ c == kde_F k x - kde_F k (2 * m - x)).
+  Proof.
+    intro B. rewrite kde_pdf_epan, kde_cdf_epan by assumption. rewrite B.
+    cbn [reflect_pdf reflect_cdf option_map]. split; intro H.
+    - apply Qltb_true in H. rewrite H. split; reflexivity.
+    - apply Qltb_false in H. rewrite H. cbn [option_map].
+      eexists; eexists; repeat split; rewrite ?y_is_f, ?Y_is_F by exact ok; reflexivity.
+  Qed.
+  Theorem kde_lower_cdf_at_min m : k_b k = BLower m ->
+    exists c, kde_cdf k m = Some (XFin c) /\ c == 0.
+  Proof.
+    intro B. destruct (kde_lower_reflects m m B) as [_ H].
+    destruct (H (Qle_refl m)) as (p & c & _ & C & _ & E). exists c. split; [exact C|].
+    rewrite E, (kde_F_comp k (2 * m - m) m) by ring. ring.
+  Qed.
+
+  (* support (-inf, M): density 0 and distribution function 1 from M on *)
+  Theorem kde_upper_reflects M x : k_b k = BUpper M ->
+    (M <= x -> kde_pdf k x = Some (XFin 0) /\ kde_cdf k x = Some (XFin 1)) /\
+    (x < M -> exists p c, kde_pdf k x = Some (XFin p) /\ kde_cdf k x = Some (XFin c) /\
+               p == kde_f k x + kde_f k (2 * M - x) /\ c == kde_F k x + (1 - kde_F k (2 * M - x))).
+  Proof.
+    intro B. rewrite kde_pdf_epan, kde_cdf_epan by assumption. rewrite B.
+    cbn [reflect_pdf reflect_cdf option_map]. split; intro H.
+    - apply Qle_bool_iff in H. rewrite H. split; reflexivity.
+    - apply Qle_bool_false in H. rewrite H. cbn [option_map].
+      eexists; eexists; repeat split; rewrite ?y_is_f, ?Y_is_F by exact ok; reflexivity.
+  Qed.
+  (* the value 1 returned from M on continues the inside formula: F(M) + 1 - F(2M - M) = 1 *)
+  Theorem kde_upper_cdf_at_max M : kde_F k M + (1 - kde_F k (2 * M - M)) == 1.
+  Proof. rewrite (kde_F_comp k (2 * M - M) M) by ring. ring. Qed.
+
+  (* support [m, M) with the data inside: the estimate folded back at BOTH boundaries.
+     The value the model computes with its finite fuel is the symmetric image sum of EVERY
+     order N >= k_fuel, i.e. the full two-sided infinite image sum. *)
+  Theorem kde_both_is_fold m M x : k_b k = BBoth m M -> pairs_within m M (kde_ps k) ->
+    (x < m -> kde_pdf k x = Some (XFin 0) /\ kde_cdf k x = Some (XFin 0)) /\
+    (M <= x -> kde_pdf k x = Some (XFin 0) /\ kde_cdf k x = Some (XFin 1)) /\
+    (m <= x -> x < M -> exists p c, kde_pdf k x = Some (XFin p) /\ kde_cdf k x = Some (XFin c) /\
+       forall N, (k_fuel k <= N)%nat ->
+         p == fold_pdf (kde_f k) m M N x /\ c == fold_cdf (kde_F k) m M N x).
+  Proof.
+    intros B Hin. rewrite kde_pdf_epan, kde_cdf_epan by assumption. rewrite B.
+    assert (mM : m <= M).
+    { pose proof (kde_ps_ok k ok) as [Hne _]. destruct (kde_ps k) as [|p0 l]; [congruence|].
+      inversion Hin; subst. lra. }
+    cbn [reflect_pdf reflect_cdf]. split; [|split].
+    - intro H. apply Qltb_true in H. rewrite H. split; reflexivity.
+    - intro H. assert (H' : Qltb x m = false) by (apply Qltb_false; lra).
+      apply Qle_bool_iff in H. rewrite H, H', orb_true_r. split; reflexivity.
+    - intros H1 H2. assert (H1' : Qltb x m = false) by (apply Qltb_false; lra).
+      assert (H2' : Qle_bool M x = false) by (apply Qle_bool_false; lra).
+      rewrite H1', H2'. cbn [orb].
+      assert (Fu : k_fuel k = img_fuel (k_h k) m M) by (unfold k_fuel; rewrite B, kern; reflexivity).
+      assert (hp : 0 < k_h k) by apply ok.
+      destruct (img_fuel_enough (k_h k) m M) as [K1 K2]; [lra | lra |].
+      set (K0 := (img_fuel (k_h k) m M - 3)%nat) in *.
+      destruct (two_series_pdf_is_fold (kde_ps k) (k_h k) m M x hp Hin (conj H1 (Qlt_le_weak _ _ H2))
+                  (mix (epan_pdf (k_h k)) (k_xs k) (k_ws k))) with (K0 := K0) (fuel := k_fuel k)
+        as [p [P1 P2]].
+      { intro z. rewrite y_is_f by exact ok. apply kde_f_nonneg, ok. }
+      { intros s t E. rewrite !y_is_f by exact ok. apply kde_f_comp, E. }
+      { intro z. rewrite y_is_f by exact ok. apply kde_f_zero, ok. }
+      { exact K2. }
+      { rewrite Fu. exact K1. }
+      destruct (two_series_cdf_is_fold (kde_ps k) (k_h k) m M x hp Hin (conj H1 (Qlt_le_weak _ _ H2))
+                  K0 K2 (mix (epan_cdf (k_h k)) (k_xs k) (k_ws k))) with (fuel := k_fuel k)
+        as [c [C1 C2]].
+      { intros s t E. rewrite !Y_is_F by exact ok. apply kde_F_comp, E. }
+      { intros a b L. rewrite !Y_is_F by exact ok. apply kde_F_flat; [exact ok | exact L]. }
+      { rewrite Fu. exact K1. }
+      exists p, c. rewrite P1, C1. repeat split.
+      + rewrite (P2 N) by lia. apply fold_pdf_ext. intro z. apply y_is_f, ok.
+      + rewrite (C2 N) by lia. apply fold_cdf_ext. intro z. apply Y_is_F, ok.
+  Qed.
+
+  (* at BoundaryMin the folded distribution function is 0, at BoundaryMax it has reached 1:
+     the guard values continue the inside formula *)
+  Theorem kde_both_cdf_ends m M N : k_b k = BBoth m M -> pairs_within m M (kde_ps k) -> m < M ->
+    (k_fuel k <= N)%nat ->
+    fold_cdf (kde_F k) m M N m == 0 /\ fold_cdf (kde_F k) m M N M == 1.
+  Proof.
+    intros B Hin mM L. split.
+    - apply fold_cdf_at_min. apply kde_F_comp.
+    - apply (fold_cdf_at_max _ m M (k_h k)).
+      + apply kde_F_comp.
+      + intros z Hz. apply (kde_F_left k ok m M); assumption.
+      + intros z Hz. apply (kde_F_right k ok m M); assumption.
+      + lra.
+      + assert (hp : 0 < k_h k) by apply ok.
+        destruct (img_fuel_enough (k_h k) m M) as [K1 K2]; [lra | lra |].
+        assert (Fu : k_fuel k = img_fuel (k_h k) m M) by (unfold k_fuel; rewrite B, kern; reflexivity).
+        set (K0 := (img_fuel (k_h k) m M - 3)%nat) in *.
+        assert (Qofnat K0 <= Qofnat N).
+        { unfold Qofnat. rewrite <- Zle_Qle. lia. }
+        unfold img_d, period in *. nra.
+  Qed.
+End EpanKDE.
+
+(* ====================================================================== *)
+(* 8. one formula for all boundary settings, and the laws of a distribution *)
+(* ====================================================================== *)
+(* the estimate the property describes, for an unbounded pair (f, F) and image order N *)
+Definition pdf_spec (f : Q -> Q) (b : bconf) (N : nat) (x : Q) : Q :=
+  match b with
+  | BLower m => if Qltb x m then 0 else f x + f (2 * m - x)
+  | BUpper M => if Qle_bool M x then 0 else f x + f (2 * M - x)
+  | BBoth m M => if Qltb x m || Qle_bool M x then 0 else fold_pdf f m M N x
+  | _ => f x
+  end.
+Definition cdf_spec (F : Q -> Q) (b : bconf) (N : nat) (x : Q) : Q :=
+  match b with
+  | BLower m => if Qltb x m then 0 else F x - F (2 * m - x)
+  | BUpper M => if Qle_bool M x then 1 else F x + (1 - F (2 * M - x))
+  | BBoth m M => if Qltb x m then 0 else if Qle_bool M x then 1 else fold_cdf F m M N x
+  | _ => F x
+  end.
+
+Lemma sym_sum_nonneg t N : (forall n, 0 <= t n) -> 0 <= sym_sum t N.
+Proof.
+  intro H. induction N as [|N IH]; cbn [sym_sum]; [apply H|].
+  pose proof (H (Z.of_nat (S N))). pose proof (H (- Z.of_nat (S N))%Z). lra.
+Qed.
+Lemma sym_sum_le s t N : (forall n, s n <= t n) -> sym_sum s N <= sym_sum t N.
+Proof.
+  intro H. induction N as [|N IH]; cbn [sym_sum]; [apply H|].
+  pose proof (H (Z.of_nat (S N))). pose proof (H (- Z.of_nat (S N))%Z). lra.
+Qed.
+
+Section SpecLaws.
+  Variables f F : Q -> Q.
+  Hypothesis f_nonneg : forall z, 0 <= f z.
+  Hypothesis F_mono : forall s t, s <= t -> F s <= F t.
+  Hypothesis F_range : forall z, 0 <= F z /\ F z <= 1.
+
+  Lemma fold_pdf_nonneg m M N x : 0 <= fold_pdf f m M N x.
+  Proof.
+    unfold fold_pdf. apply sym_sum_nonneg. intro n.
+    pose proof (f_nonneg (x + inject_Z n * period m M)).
+    pose proof (f_nonneg (2 * m - x + inject_Z n * period m M)). lra.
+  Qed.
+  Lemma fold_cdf_mono m M N a b : a <= b -> fold_cdf F m M N a <= fold_cdf F m M N b.
+  Proof.
+    intro L. unfold fold_cdf. apply sym_sum_le. intro n.
+    pose proof (F_mono (a + inject_Z n * period m M) (b + inject_Z n * period m M)).
+    pose proof (F_mono (2 * m - b + inject_Z n * period m M) (2 * m - a + inject_Z n * period m M)). lra.
+  Qed.
+  Lemma fold_cdf_nonneg m M N x : m <= x -> 0 <= fold_cdf F m M N x.
+  Proof.
+    intro L. unfold fold_cdf. apply sym_sum_nonneg. intro n.
+    pose proof (F_mono (2 * m - x + inject_Z n * period m M) (x + inject_Z n * period m M)). lra.
+  Qed.
+
+  Variable b : bconf.
+  Variable N : nat.
+  (* doubly bounded: the images of order N cover the kernel, so the fold reaches 1 at M *)
+  Hypothesis at_max : forall m M, b = BBoth m M -> fold_cdf F m M N M == 1.
+
+  (* PDF >= 0 *)
+  Theorem pdf_spec_nonneg x : 0 <= pdf_spec f b N x.
+  Proof.
+    clear at_max. unfold pdf_spec. destruct b as [|m|M|m M|]; try apply f_nonneg.
+    - destruct (Qltb x m); [lra|]. pose proof (f_nonneg x). pose proof (f_nonneg (2 * m - x)). lra.
+    - destruct (Qle_bool M x); [lra|]. pose proof (f_nonneg x). pose proof (f_nonneg (2 * M - x)). lra.
+    - destruct (Qltb x m || Qle_bool M x); [lra | apply fold_pdf_nonneg].
+  Qed.
+
+  (* the density vanishes outside [BoundaryMin, BoundaryMax) *)
+  Theorem pdf_spec_outside x : below_min b x = true \/ from_max b x = true -> pdf_spec f b N x = 0.
+  Proof.
+    clear at_max. unfold pdf_spec, below_min, from_max. destruct b as [|m|M|m M|]; intros [H|H]; try discriminate;
+      rewrite H; try reflexivity. now rewrite orb_true_r.
+  Qed.
+
+  (* CDF is non-decreasing on the whole line ... *)
+  Theorem cdf_spec_mono x x' : x <= x' -> cdf_spec F b N x <= cdf_spec F b N x'.
+  Proof.
+    intro L. unfold cdf_spec. destruct b as [|m|M|m M|]; try (apply F_mono; exact L).
+    - destruct (Qltb x m) eqn:A, (Qltb x' m) eqn:B; qb; try lra.
+      + pose proof (F_mono (2 * m - x') x'). lra.
+      + pose proof (F_mono x x' L). pose proof (F_mono (2 * m - x') (2 * m - x)). lra.
+    - destruct (Qle_bool M x) eqn:A, (Qle_bool M x') eqn:B; qb; try lra.
+      + pose proof (F_mono x (2 * M - x)). lra.
+      + pose proof (F_mono x x' L). pose proof (F_mono (2 * M - x') (2 * M - x)). lra.
+    - specialize (at_max m M eq_refl).
+      destruct (Qltb x m) eqn:A, (Qltb x' m) eqn:B; qb; try lra.
+      + destruct (Qle_bool M x'); [lra | apply fold_cdf_nonneg; exact B].
+      + destruct (Qle_bool M x) eqn:C, (Qle_bool M x') eqn:D; qb; try lra.
+        * rewrite <- at_max. apply fold_cdf_mono. lra.
+        * apply fold_cdf_mono. exact L.
+  Qed.
+
+  (* ... from 0 to 1 *)
+  Theorem cdf_spec_range x : 0 <= cdf_spec F b N x /\ cdf_spec F b N x <= 1.
+  Proof.
+    unfold cdf_spec. destruct b as [|m|M|m M|]; try apply F_range.
+    - destruct (Qltb x m) eqn:A; qb; [lra|].
+      pose proof (F_mono (2 * m - x) x). pose proof (F_range x). pose proof (F_range (2 * m - x)). lra.
+    - destruct (Qle_bool M x) eqn:A; qb; [lra|].
+      pose proof (F_mono x (2 * M - x)). pose proof (F_range x). pose proof (F_range (2 * M - x)). lra.
+    - specialize (at_max m M eq_refl).
+      destruct (Qltb x m) eqn:A; qb; [lra|]. destruct (Qle_bool M x) eqn:C; qb; [lra|].
+      split; [apply fold_cdf_nonneg; exact A|].
+      rewrite <- at_max. apply fold_cdf_mono. lra.
+  Qed.
+
+  (* CDF is 0 below and AT BoundaryMin, 1 from BoundaryMax on *)
+  Theorem cdf_spec_ends x : (forall s t, s == t -> F s == F t) ->
+    (below_min b x = true -> cdf_spec F b N x = 0) /\
+    (from_max b x = true -> below_min b x = false -> cdf_spec F b N x = 1) /\
+    (match b with BLower m => x == m | BBoth m M => x == m /\ m < M | _ => False end ->
+     cdf_spec F b N x == 0).
+  Proof.
+    clear at_max. intro C. unfold cdf_spec, below_min, from_max. destruct b as [|m|M|m M|]; repeat split; try discriminate;
+      try contradiction; try (intro H; rewrite H; reflexivity).
+    - intro E. assert (A : Qltb x m = false) by (apply Qltb_false; lra). rewrite A.
+      rewrite (C (2 * m - x) x) by lra. ring.
+    - intros H H'. rewrite H', H. reflexivity.
+    - intros [E mM]. assert (A : Qltb x m = false) by (apply Qltb_false; lra). rewrite A.
+      assert (D : Qle_bool M x = false) by (apply Qle_bool_false; lra). rewrite D.
+      transitivity (fold_cdf F m M N m); [| apply fold_cdf_at_min; exact C].
+      unfold fold_cdf. apply sym_sum_ext. intro n.
+      rewrite (C (x + inject_Z n * period m M) (m + inject_Z n * period m M)) by lra.
+      rewrite (C (2 * m - x + inject_Z n * period m M) (2 * m - m + inject_Z n * period m M)) by lra.
+      reflexivity.
+  Qed.
+End SpecLaws.
+
+(* the model computes pdf_spec / cdf_spec of the weighted kernel average *)
+Definition bounds_ok (k : kde) : Prop :=
+  match k_b k with BBad => False | BBoth m M => m < M /\ pairs_within m M (kde_ps k) | _ => True end.
+
+Section EpanKDELaws.
+  Variable k : kde.
+  Hypothesis ok : kde_ok k.
+  Hypothesis kern : k_kernel k = KEpan.
+  Hypothesis bok : bounds_ok k.
+
+  Theorem kde_matches_spec x N : (k_fuel k <= N)%nat ->
+    exists p c, kde_pdf k x = Some (XFin p) /\ kde_cdf k x = Some (XFin c) /\
+                p == pdf_spec (kde_f k) (k_b k) N x /\ c == cdf_spec (kde_F k) (k_b k) N x.
+  Proof.
+    intro L. unfold bounds_ok in bok. destruct (k_b k) as [|m|M|m M|] eqn:B; [| | | |contradiction].
+    - destruct (kde_unbounded_is_average k ok kern x B) as (p & c & H). exists p, c. exact H.
+    - destruct (kde_lower_reflects k ok kern m x B) as [H1 H2]. cbn [pdf_spec cdf_spec].
+      destruct (Qltb x m) eqn:A; qb.
+      + destruct (H1 A) as [P C]. exists 0, 0. repeat split; auto; reflexivity.
+      + destruct (H2 A) as (p & c & H). exists p, c. exact H.
+    - destruct (kde_upper_reflects k ok kern M x B) as [H1 H2]. cbn [pdf_spec cdf_spec].
+      destruct (Qle_bool M x) eqn:A; qb.
+      + destruct (H1 A) as [P C]. exists 0, 1. repeat split; auto; reflexivity.
+      + destruct (H2 A) as (p & c & H). exists p, c. exact H.
+    - destruct bok as [mM Hin].
+      destruct (kde_both_is_fold k ok kern m M x B Hin) as (H1 & H2 & H3). cbn [pdf_spec cdf_spec].
+      destruct (Qltb x m) eqn:A; qb.
+      + destruct (H1 A) as [P C]. exists 0, 0. cbn [orb]. repeat split; auto; reflexivity.
+      + destruct (Qle_bool M x) eqn:A2; qb.
+        * destruct (H2 A2) as [P C]. exists 0, 1. cbn [orb]. repeat split; auto; reflexivity.
+        * destruct (H3 A A2) as (p & c & P & C & E). exists p, c. cbn [orb].
+          destruct (E N L) as [E1 E2]. repeat split; assumption.
+  Qed.
+
+  Let at_max : forall m M, k_b k = BBoth m M -> fold_cdf (kde_F k) m M (k_fuel k) M == 1.
+  Proof.
+    intros m M B. unfold bounds_ok in bok. rewrite B in bok. destruct bok as [mM Hin].
+    apply (kde_both_cdf_ends k ok kern m M (k_fuel k) B Hin mM). lia.
+  Qed.
+
+  (* KDE.PDF is non-negative *)
+  Theorem kde_pdf_nonneg x p : kde_pdf k x = Some (XFin p) -> 0 <= p.
+  Proof.
+    intro H. destruct (kde_matches_spec x (k_fuel k) (Nat.le_refl _)) as (p' & c' & P & _ & E & _).
+    rewrite P in H. injection H as <-. rewrite E. apply pdf_spec_nonneg. apply kde_f_nonneg, ok.
+  Qed.
+  (* KDE.CDF is non-decreasing *)
+  Theorem kde_cdf_monotone a b ca cb : a <= b ->
+    kde_cdf k a = Some (XFin ca) -> kde_cdf k b = Some (XFin cb) -> ca <= cb.
+  Proof.
+    intros L Ha Hb.
+    destruct (kde_matches_spec a (k_fuel k) (Nat.le_refl _)) as (? & ca' & _ & Ca & _ & Ea).
+    destruct (kde_matches_spec b (k_fuel k) (Nat.le_refl _)) as (? & cb' & _ & Cb & _ & Eb).
+    rewrite Ca in Ha. rewrite Cb in Hb. injection Ha as <-. injection Hb as <-. rewrite Ea, Eb.
+    apply cdf_spec_mono; auto.
+    - apply kde_F_mono, ok.
+  Qed.
+  (* ... with values in [0, 1] *)
+  Theorem kde_cdf_range x c : kde_cdf k x = Some (XFin c) -> 0 <= c /\ c <= 1.
+  Proof.
+    intro H. destruct (kde_matches_spec x (k_fuel k) (Nat.le_refl _)) as (? & c' & _ & C & _ & E).
+    rewrite C in H. injection H as <-. rewrite E.
+    apply cdf_spec_range; auto; [apply kde_F_mono, ok | apply kde_F_range, ok].
+  Qed.
+  (* CDF is 0 below and at BoundaryMin and 1 from BoundaryMax on *)
+  Theorem kde_cdf_ends x c : kde_cdf k x = Some (XFin c) ->
+    (below_min (k_b k) x = true -> c == 0) /\
+    (from_max (k_b k) x = true -> below_min (k_b k) x = false -> c == 1) /\
+    (match k_b k with BLower m => x == m | BBoth m M => x == m | _ => False end -> c == 0).
+  Proof.
+    intro H. destruct (kde_matches_spec x (k_fuel k) (Nat.le_refl _)) as (? & c' & _ & C & _ & E).
+    rewrite C in H. injection H as <-. rewrite E.
+    destruct (cdf_spec_ends (kde_F k) (k_b k) (k_fuel k) x (kde_F_comp k)) as (E1 & E2 & E3).
+    repeat split.
+    - intro A. rewrite (E1 A). reflexivity.
+    - intros A B. rewrite (E2 A B). reflexivity.
+    - intro A. apply E3. unfold bounds_ok in bok. destruct (k_b k); auto. split; [exact A | apply bok].
+  Qed.
+  (* the density is 0 outside [BoundaryMin, BoundaryMax) *)
+  Theorem kde_pdf_outside x p : kde_pdf k x = Some (XFin p) ->
+    below_min (k_b k) x = true \/ from_max (k_b k) x = true -> p == 0.
+  Proof.
+    intros H A. destruct (kde_matches_spec x (k_fuel k) (Nat.le_refl _)) as (p' & ? & P & _ & E & _).
+    rewrite P in H. injection H as <-. rewrite E, (pdf_spec_outside (kde_f k) (k_b k) (k_fuel k) x A). reflexivity.
+  Qed.
+
+  (* 0 far on the left, 1 far on the right; the kernel is compact, so EXACTLY 0 left of
+     min(data) - h and EXACTLY 1 right of max(data) + h.  (On a bounded side the limit is
+     kde_cdf_ends; here the sides that are not bounded, data inside the boundary.) *)
+  Theorem kde_cdf_limits lo hi : pairs_within lo hi (kde_ps k) ->
+    match k_b k with BNone => True | BLower m => m <= lo | BUpper M => hi <= M | _ => False end ->
+    (forall x c, x <= lo - k_h k -> kde_cdf k x = Some (XFin c) -> c == 0) /\
+    (forall x c, hi + k_h k <= x -> kde_cdf k x = Some (XFin c) -> c == 1).
+  Proof.
+    intros Hin Hb.
+    assert (hp : 0 < k_h k) by apply ok.
+    assert (lohi : lo <= hi).
+    { pose proof (kde_ps_ok k ok) as [Hne _]. destruct (kde_ps k) as [|p0 l]; [congruence|].
+      inversion Hin; subst. lra. }
+    assert (R := fun z => kde_F_range k ok z). assert (Mo := kde_F_mono k ok).
+    assert (Z0 := fun z => kde_F_left k ok lo hi z Hin). assert (Z1 := fun z => kde_F_right k ok lo hi z Hin).
+    split; intros x c Hx H;
+      destruct (kde_matches_spec x (k_fuel k) (Nat.le_refl _)) as (? & c' & _ & C & _ & E);
+      rewrite C in H; injection H as <-; rewrite E; clear E C;
+      unfold cdf_spec; destruct (k_b k) as [|m|M|m M|] eqn:B; try contradiction.
+    - apply Z0, Hx.
+    - destruct (Qltb x m) eqn:A; qb; [reflexivity|].
+      pose proof (Mo (2 * m - x) x). pose proof (R (2 * m - x)). pose proof (Z0 x Hx). lra.
+    - assert (A : Qle_bool M x = false) by (apply Qle_bool_false; lra). rewrite A.
+      rewrite (Z0 x Hx), (Z1 (2 * M - x)) by lra. ring.
+    - apply Z1, Hx.
+    - assert (A : Qltb x m = false) by (apply Qltb_false; lra). rewrite A.
+      rewrite (Z1 x Hx), (Z0 (2 * m - x)) by lra. ring.
+    - destruct (Qle_bool M x) eqn:A; qb; [reflexivity|].
+      pose proof (Mo x (2 * M - x)). pose proof (R (2 * M - x)). pose proof (Z1 x Hx). lra.
+  Qed.
+End EpanKDELaws.
+
+(* ====================================================================== *)
+(* 9. the delta kernel: weighted empirical distribution function            *)
+(* ====================================================================== *)
+Definition kde_ok_delta (k : kde) : Prop :=
+  k_xs k <> [] /\ ws_wf (k_xs k) (k_ws k) /\ ws_pos (k_ws k).
+
+Lemma kde_cdf_delta k x : k_xs k <> [] -> k_kernel k = KDelta ->
+  kde_cdf k x = option_map XFin (reflect_cdf (mix delta_cdf (k_xs k) (k_ws k)) (k_fuel k) (k_b k) x).
+Proof.
+  intros A E. unfold kde_cdf. rewrite E. destruct (k_xs k) as [|x0 xs] eqn:X; [congruence|]. reflexivity.
+Qed.
+Lemma kde_pdf_delta k x : k_xs k <> [] -> k_kernel k = KDelta ->
+  kde_pdf k x = option_map (fun v => if Qltb 0 v then XInf false else XFin 0)
+                  (reflect_pdf (mix delta_hit (k_xs k) (k_ws k)) (k_fuel k) (k_b k) x).
+Proof.
+  intros A E. unfold kde_pdf. rewrite E. destruct (k_xs k) as [|x0 xs] eqn:X; [congruence|]. reflexivity.
+Qed.
+
+Lemma wavg_delta_is_wecdf ps x : wavg delta_cdf ps x == wecdf ps x.
+Proof.
+  unfold wavg, wecdf. apply Qdiv_comp; [|reflexivity]. apply Qsum_ext. intros p _.
+  unfold delta_cdf.
+  assert (E : Qle_bool 0 (x - fst p) = Qle_bool (fst p) x).
+  { destruct (Qle_bool (fst p) x) eqn:A; qb; [apply Qle_bool_iff | apply Qle_bool_false]; lra. }
+  rewrite E. destruct (Qle_bool (fst p) x); ring.
+Qed.
+
+Section DeltaKDE.
+  Variable k : kde.
+  Hypothesis ok : kde_ok_delta k.
+  Hypothesis kern : k_kernel k = KDelta.
+
+  Let ne : k_xs k <> []. Proof. apply ok. Qed.
+  Let wf : ws_wf (k_xs k) (k_ws k). Proof. apply ok. Qed.
+  Let pok : pairs_ok (kde_ps k). Proof. destruct ok as (A & B & C). apply kpairs_ok; assumption. Qed.
+
+  Let Y_ecdf z : mix delta_cdf (k_xs k) (k_ws k) z == wecdf (kde_ps k) z.
+  Proof. rewrite mix_is_wavg by exact wf. apply wavg_delta_is_wecdf. Qed.
+
+  (* no boundary: CDF is the weighted empirical distribution function *)
+  Theorem delta_cdf_is_weighted_ecdf x : k_b k = BNone ->
+    exists c, kde_cdf k x = Some (XFin c) /\ c == wecdf (kde_ps k) x.
+  Proof.
+    intro B. rewrite kde_cdf_delta by assumption. rewrite B. cbn [reflect_cdf option_map].
+    eexists. split; [reflexivity | apply Y_ecdf].
+  Qed.
+
+  (* the empirical distribution function has no mass left of the data and all of it from
+     the largest value on *)
+  Lemma wecdf_left lo hi z : pairs_within lo hi (kde_ps k) -> z < lo -> wecdf (kde_ps k) z == 0.
+  Proof.
+    intros Hin Hz. rewrite <- wavg_delta_is_wecdf. apply wavg_const; [exact pok|].
+    intros p Hp. unfold pairs_within in Hin. rewrite Forall_forall in Hin. specialize (Hin p Hp).
+    unfold delta_cdf. assert (E : Qle_bool 0 (z - fst p) = false) by (apply Qle_bool_false; lra).
+    rewrite E. reflexivity.
+  Qed.
+  Lemma wecdf_right lo hi z : pairs_within lo hi (kde_ps k) -> hi <= z -> wecdf (kde_ps k) z == 1.
+  Proof.
+    intros Hin Hz. rewrite <- wavg_delta_is_wecdf. apply wavg_const; [exact pok|].
+    intros p Hp. unfold pairs_within in Hin. rewrite Forall_forall in Hin. specialize (Hin p Hp).
+    unfold delta_cdf. assert (E : Qle_bool 0 (z - fst p) = true) by (apply Qle_bool_iff; lra).
+    rewrite E. reflexivity.
+  Qed.
+
+  (* with one boundary (data inside): 0 below and AT BoundaryMin / 1 from BoundaryMax, and the
+     empirical distribution function strictly inside *)
+  Theorem delta_cdf_lower m lo hi x : k_b k = BLower m -> pairs_within lo hi (kde_ps k) -> m <= lo ->
+    exists c, kde_cdf k x = Some (XFin c) /\
+              (x <= m -> c == 0) /\ (m < x -> c == wecdf (kde_ps k) x).
+  Proof.
+    intros B Hin L. rewrite kde_cdf_delta by assumption. rewrite B. cbn [reflect_cdf].
+    destruct (Qltb x m) eqn:A; qb; cbn [option_map]; eexists; (split; [reflexivity|]); split; intro H;
+      try reflexivity; try (exfalso; lra).
+    - rewrite !Y_ecdf. assert (E : x == m) by lra.
+      assert (Ws : forall s t, s == t -> wecdf (kde_ps k) s == wecdf (kde_ps k) t).
+      { intros s t Est. rewrite <- !wavg_delta_is_wecdf. apply wavg_comp; [|exact Est].
+        intros a b Eab. unfold delta_cdf. rewrite Eab. reflexivity. }
+      rewrite (Ws (2 * m - x) x) by lra. ring.
+    - rewrite !Y_ecdf. rewrite (wecdf_left lo hi (2 * m - x) Hin) by lra. ring.
+  Qed.
+  Theorem delta_cdf_upper M lo hi x : k_b k = BUpper M -> pairs_within lo hi (kde_ps k) -> hi <= M ->
+    exists c, kde_cdf k x = Some (XFin c) /\
+              (M <= x -> c == 1) /\ (x < M -> c == wecdf (kde_ps k) x).
+  Proof.
+    intros B Hin L. rewrite kde_cdf_delta by assumption. rewrite B. cbn [reflect_cdf].
+    destruct (Qle_bool M x) eqn:A; qb; cbn [option_map]; eexists; (split; [reflexivity|]); split; intro H;
+      try reflexivity; try (exfalso; lra).
+    rewrite !Y_ecdf. rewrite (wecdf_right lo hi (2 * M - x) Hin) by lra. ring.
+  Qed.
+
+  (* the "density": +Inf exactly at the data points *)
+  Theorem delta_pdf_unbounded x : k_b k = BNone ->
+    ((exists p, In p (kde_ps k) /\ fst p == x) -> kde_pdf k x = Some (XInf false)) /\
+    ((forall p, In p (kde_ps k) -> ~ fst p == x) -> kde_pdf k x = Some (XFin 0)).
+  Proof.
+    intro B. rewrite kde_pdf_delta by assumption. rewrite B. cbn [reflect_pdf option_map].
+    assert (NN : forall t, 0 <= delta_hit t) by (intro t; unfold delta_hit; destruct (Qeq_bool t 0); lra).
+    pose proof (wavg_zero_iff (kde_ps k) pok delta_hit x NN) as Z.
+    pose proof (wavg_nonneg (kde_ps k) pok delta_hit x NN) as P.
+    rewrite <- (mix_is_wavg delta_hit _ _ x wf) in Z, P.
+    split.
+    - intros (p & Hp & E).
+      assert (A : Qltb 0 (mix delta_hit (k_xs k) (k_ws k) x) = true).
+      { apply Qltb_true. destruct (Qeq_dec (mix delta_hit (k_xs k) (k_ws k) x) 0) as [Q0|NQ]; [|lra].
+        exfalso. pose proof (proj1 Z Q0 p Hp) as D. unfold delta_hit in D.
+        assert (T : Qeq_bool (x - fst p) 0 = true) by (apply Qeq_bool_iff; lra). rewrite T in D. lra. }
+      rewrite A. reflexivity.
+    - intro H.
+      assert (A : Qltb 0 (mix delta_hit (k_xs k) (k_ws k) x) = false).
+      { apply Qltb_false. assert (Q0 : mix delta_hit (k_xs k) (k_ws k) x == 0); [|lra].
+        apply Z. intros p Hp. unfold delta_hit.
+        assert (T : Qeq_bool (x - fst p) 0 = false).
+        { apply Qeq_bool_false. intro E. apply (H p Hp). lra. }
+        rewrite T. reflexivity. }
+      rewrite A. reflexivity.
+  Qed.
+End DeltaKDE.
+
+(* ====================================================================== *)
+(* 10. lazy bandwidth, Bounds checker                                       *)
+(* ====================================================================== *)
+(* a non-zero Bandwidth is never touched; a zero one becomes Scott's value; a second call
+   changes nothing *)
+Theorem bandwidth_lazy (before scott : Q) :
+  (~ before == 0 -> bandwidth_after before scott = before) /\
+  (before == 0 -> bandwidth_after before scott = scott) /\
+  bandwidth_after (bandwidth_after before scott) scott = bandwidth_after before scott.
+Proof.
+  unfold bandwidth_after. repeat split.
+  - intro H. apply Qeq_bool_false in H. rewrite H. reflexivity.
+  - intro H. apply Qeq_bool_iff in H. rewrite H. reflexivity.
+  - destruct (Qeq_bool before 0) eqn:A.
+    + destruct (Qeq_bool scott 0); reflexivity.
+    + rewrite A. reflexivity.
+Qed.
+
+(* what an accepted Bounds() result means *)
+Theorem kde_bounds_ok_sound (b : bconf) (lo hi : xreal) (mass : Q) :
+  kde_bounds_ok b lo hi mass = true ->
+  exists l h, lo = XFin l /\ hi = XFin h /\ l <= h /\ (98 # 100) <= mass /\
+    match b with
+    | BNone => True
+    | BLower m => m <= l
+    | BUpper M => h <= M
+    | BBoth m M => m <= l /\ h <= M
+    | BBad => False
+    end.
+Proof.
+  unfold kde_bounds_ok. destruct lo as [| |l]; try discriminate. destruct hi as [| |h]; try discriminate.
+  intro H. apply andb_true_iff in H. destruct H as [H H3]. apply andb_true_iff in H. destruct H as [H1 H2].
+  qb. exists l, h. repeat split; auto.
+  unfold inside_bounds in H2. destruct b; auto; qb; auto. discriminate.
+Qed.
+
+(* the delta kernel's mass of a closed interval: total weight of the data points in it *)
+Theorem delta_mass_in_spec xs ws lo hi : ws_wf xs ws ->
+  delta_mass_in xs ws lo hi ==
+  Qsum (map (fun p => if Qle_bool lo (fst p) && Qle_bool (fst p) hi then snd p else 0) (kpairs xs ws))
+  / wtotal (kpairs xs ws).
+Proof.
+  intro W. unfold delta_mass_in. rewrite mix_is_wavg by exact W. unfold wavg.
+  apply Qdiv_comp; [|reflexivity]. apply Qsum_ext. intros p _.
+  assert (E1 : Qle_bool 0 (hi - fst p) = Qle_bool (fst p) hi).
+  { destruct (Qle_bool (fst p) hi) eqn:A; qb; [apply Qle_bool_iff | apply Qle_bool_false]; lra. }
+  assert (E2 : Qle_bool (hi - fst p) (hi - lo) = Qle_bool lo (fst p)).
+  { destruct (Qle_bool lo (fst p)) eqn:A; qb; [apply Qle_bool_iff | apply Qle_bool_false]; lra. }
+  rewrite E1, E2, andb_comm. destruct (Qle_bool lo (fst p) && Qle_bool (fst p) hi); ring.
+Qed.
+
+(* ====================================================================== *)
+(* 11. the pinned tree's doubly bounded density (defect D5) is NOT the fold  *)
+(* ====================================================================== *)
+(* sample {1,2,3}, h = 1, support [1/2, 4), x = 3: the repaired model gives the image sum 1/4,
+   the pinned variant (second series with +w) puts a spurious image at 3x - 2m - d = 1 and
+   gives 1/2 *)
+Definition d5_kde : kde := mkKde [1; 2; 3] None KEpan 1 (BBoth (1 # 2) 4).
+Theorem kde_both_D5_refuted :
+  exists (k : kde) (m M x : Q) (N : nat) (p : Q),
+    kde_ok k /\ k_kernel k = KEpan /\ k_b k = BBoth m M /\ pairs_within m M (kde_ps k) /\
+    m <= x /\ x < M /\ (k_fuel k <= N)%nat /\
+    kde_pdf k x = Some (XFin p) /\ p == fold_pdf (kde_f k) m M N x /\
+    ~ p == fold_pdf_D5 (kde_f k) m M N x.
+Proof.
+  exists d5_kde, (1 # 2), 4, 3, 5%nat, (1 # 4).
+  repeat split; try (vm_compute; congruence); try (vm_compute; lia).
+  repeat constructor; cbn; lra.
+Qed.
+
+(* combined statement for Properties/C12.v *)
+Lemma epan_cdf_ends (h x : Q) : 0 < h ->
+  (x <= - h -> epan_cdf h x == 0) /\ (h <= x -> epan_cdf h x == 1).
+Proof.
+  intro Hh. split; intro H; [rewrite epan_cdf_left by lra; reflexivity | apply epan_cdf_right; assumption].
+Qed.
+(* the exact polynomial pieces: K is a cubic with K' = k on the open support *)
+Lemma epan_pieces (h x : Q) : 0 < h -> - h < x -> x < h ->
+  epan_pdf h x == (3 # 4) / h * (1 - x * x / (h * h)) /\
+  epan_cdf h x == (1 # 4) * (2 + 3 * (x / h) - (x / h) * (x / h) * (x / h)).
+Proof.
+  intros Hh A B. split; [apply epan_pdf_inside; assumption | apply epan_cdf_mid; lra].
+Qed.
+
+(* ====================================================================== *)
+(* 12. the delta kernel between two boundaries                              *)
+(* ====================================================================== *)
+Section DeltaBoth.
+  Variable k : kde.
+  Hypothesis ok : kde_ok_delta k.
+  Hypothesis kern : k_kernel k = KDelta.
+  Variables m M : Q.
+  Hypothesis B : k_b k = BBoth m M.
+  Hypothesis Hin : pairs_within m M (kde_ps k).
+  Hypothesis mM : m < M.
+
+  Let Y := mix delta_cdf (k_xs k) (k_ws k).
+  Let wf : ws_wf (k_xs k) (k_ws k). Proof. apply ok. Qed.
+  Let Y_ecdf z : Y z == wecdf (kde_ps k) z.
+  Proof. unfold Y. rewrite mix_is_wavg by exact wf. apply wavg_delta_is_wecdf. Qed.
+  Let Y0 z : z < m -> Y z == 0.
+  Proof. intro H. rewrite Y_ecdf. apply (wecdf_left k ok m M z Hin H). Qed.
+  Let Y1 z : M <= z -> Y z == 1.
+  Proof. intro H. rewrite Y_ecdf. apply (wecdf_right k ok m M z Hin H). Qed.
+  Let Y_comp s t : s == t -> Y s == Y t.
+  Proof.
+    intro E. unfold Y. rewrite !mix_is_wavg by exact wf. apply wavg_comp; [|exact E].
+    intros a b Eab. unfold delta_cdf. rewrite Eab. reflexivity.
+  Qed.
+
+  Variable x : Q.
+  Hypothesis x_in : m <= x /\ x < M.
+
+  Let up_tail n : cdf_upper Y m M x (S n) == 0.
+  Proof.
+    unfold cdf_upper.
+    assert (Hc : 0 <= Qofnat n * img_d m M).
+    { apply Qmult_le_0_compat; [apply Qofnat_nonneg | unfold img_d; lra]. }
+    assert (Ec : Qofnat (S n) * img_d m M == Qofnat n * img_d m M + img_d m M) by (rewrite Qofnat_S; ring).
+    set (c := Qofnat n * img_d m M) in *. set (c' := Qofnat (S n) * img_d m M) in *. clearbody c c'.
+    unfold img_d, img_w in *. rewrite !Y1 by lra. ring.
+  Qed.
+  Let lo_all n : cdf_lower Y m M x n == 0.
+  Proof.
+    unfold cdf_lower.
+    assert (Hc : 0 <= Qofnat n * img_d m M).
+    { apply Qmult_le_0_compat; [apply Qofnat_nonneg | unfold img_d; lra]. }
+    assert (Ec : (Qofnat n + 1) * img_d m M == Qofnat n * img_d m M + img_d m M) by ring.
+    set (c := Qofnat n * img_d m M) in *. set (c' := (Qofnat n + 1) * img_d m M) in *. clearbody c c'.
+    unfold img_d, img_w in *. rewrite !Y0 by lra. ring.
+  Qed.
+
+  (* between the boundaries the folded step function is the empirical distribution function
+     (0 AT BoundaryMin, even if a data point sits there) *)
+  Theorem delta_cdf_both :
+    exists c, kde_cdf k x = Some (XFin c) /\
+              (x == m -> c == 0) /\ (m < x -> c == wecdf (kde_ps k) x).
+  Proof.
+    rewrite kde_cdf_delta by (assumption || apply ok). rewrite B. cbn [reflect_cdf].
+    destruct x_in as [X1 X2].
+    assert (A1 : Qltb x m = false) by (apply Qltb_false; lra).
+    assert (A2 : Qle_bool M x = false) by (apply Qle_bool_false; lra). rewrite A1, A2.
+    assert (Fu : (1 < k_fuel k)%nat).
+    { unfold k_fuel. rewrite B, kern. unfold img_fuel.
+      assert (E : Qle_bool M m = false) by (apply Qle_bool_false; lra). rewrite E. lia. }
+    destruct (series_q_value (cdf_upper Y m M x) (k_fuel k) 1) as [a [S1 S2]];
+      [intros n _; apply up_tail | apply up_tail | exact Fu |].
+    destruct (series_q_value (cdf_lower Y m M x) (k_fuel k) 0) as [b [T1 T2]];
+      [intros n _; apply lo_all | apply lo_all | lia |].
+    fold Y. unfold two_series. rewrite S1, T1. cbn [option_map].
+    eexists. split; [reflexivity|].
+    assert (Ea : a == Y x - Y (2 * m - x)).
+    { rewrite (S2 1%nat) by lia. cbn [nat_sum]. unfold cdf_upper, img_d, img_w.
+      rewrite (Y_comp (x + Qofnat 0 * (2 * (M - m))) x) by (unfold Qofnat; cbn; ring).
+      rewrite (Y_comp (x + Qofnat 0 * (2 * (M - m)) - 2 * (x - m)) (2 * m - x)) by (unfold Qofnat; cbn; ring).
+      ring. }
+    assert (Eb : b == 0) by (rewrite (T2 0%nat) by lia; reflexivity).
+    rewrite Qred_correct, Ea, Eb. split; intro H.
+    - rewrite (Y_comp (2 * m - x) x) by lra. ring.
+    - rewrite (Y0 (2 * m - x)) by lra. rewrite Y_ecdf. ring.
+  Qed.
+End DeltaBoth.
